@@ -870,4 +870,1703 @@ theorem compile_straight (env : Nat → Nat → Nat) (w fuel : Nat) (p : Prog) (
   · cases hc
 
 
+
+/-! ### structured programs: definitions -/
+
+def exprVars : Expr → List Nat
+  | .lit _ => []
+  | .var x => [x]
+  | .ioread _ => []
+  | .add a b => exprVars a ++ exprVars b
+  | .mul a b => exprVars a ++ exprVars b
+
+def condVars : Cond → List Nat
+  | .eq a b => exprVars a ++ exprVars b
+
+/-- variables declared directly in a statement sequence (not those of nested blocks) -/
+def topDecls : Stmt → List Nat
+  | .seq a b => topDecls a ++ topDecls b
+  | .decl x => [x]
+  | _ => []
+
+/-- Scoping and placement check (decidable; evaluated by the oracle on every generated program):
+    every variable that is read or written is in scope (`live`), a declaration introduces a variable
+    that is not yet in scope and whose memory cell is not the cell of any variable in scope.
+    Block-local variables leave the scope at the end of their block. -/
+def wfS (ls : List Loc) : Stmt → List Nat → Bool
+  | .skip, _ => true
+  | .seq a b, live => wfS ls a live && wfS ls b (live ++ topDecls a)
+  | .decl x, live =>
+    !live.contains x &&
+    (match ls[x]? with
+     | some (.mem m) => live.all (fun y => ls[y]? != some (.mem m))
+     | _ => false)
+  | .assign x e, live => live.contains x && (exprVars e).all live.contains
+  | .inc x, live => live.contains x
+  | .dec x, live => live.contains x
+  | .iowrite _ e, live => (exprVars e).all live.contains
+  | .ifThen c t, live => (condVars c).all live.contains && wfS ls t live
+  | .ifElse c t e, live => (condVars c).all live.contains && wfS ls t live && wfS ls e live
+  | .loop none b, live => wfS ls b live
+  | .loop (some c) b, live => (condVars c).all live.contains && wfS ls b live
+
+/-- agreement on the variables in scope -/
+structure AgreeL (ls : List Loc) (live : List Nat) (cfg : Cfg) (s : Src) : Prop where
+  regv : ∀ x ∈ live, ∀ g, ls[x]? = some (.reg g) → cfg.regs g = s.vars x
+  memv : ∀ x ∈ live, ∀ m, ls[x]? = some (.mem m) → cfg.mem m = s.vars x
+  rc : cfg.rc = s.rc
+
+/-- the registers of register variables are never handed out as temporaries -/
+def VarRegsIn (ls : List Loc) (busy : List Nat) : Prop := ∀ (x g : Nat), ls[x]? = some (Loc.reg g) → g ∈ busy
+
+/-- variables in scope live in pairwise distinct places -/
+def LiveInj (ls : List Loc) (live : List Nat) : Prop :=
+  ∀ x ∈ live, ∀ y ∈ live, ∀ l, ls[x]? = some l → ls[y]? = some l → x = y
+
+theorem AgreeL.mono {ls : List Loc} {live live' : List Nat} {cfg : Cfg} {s : Src}
+    (h : AgreeL ls live' cfg s) (hs : ∀ x ∈ live, x ∈ live') : AgreeL ls live cfg s :=
+  ⟨fun x hx => h.regv x (hs x hx), fun x hx => h.memv x (hs x hx), h.rc⟩
+
+/-! ### expressions do not change variables or outputs; their value depends on the variables read -/
+
+theorem evalE_frame (env : Nat → Nat → Nat) (w : Nat) (e : Expr) :
+    ∀ s, (evalE env w e s).2.vars = s.vars ∧ (evalE env w e s).2.outs = s.outs := by
+  induction e with
+  | lit n => intro s; simp [evalE]
+  | var x => intro s; simp [evalE]
+  | ioread i => intro s; simp [evalE]
+  | add a b iha ihb =>
+    intro s
+    simp only [evalE]
+    exact ⟨by rw [(ihb _).1, (iha _).1], by rw [(ihb _).2, (iha _).2]⟩
+  | mul a b iha ihb =>
+    intro s
+    simp only [evalE]
+    exact ⟨by rw [(ihb _).1, (iha _).1], by rw [(ihb _).2, (iha _).2]⟩
+
+theorem evalE_congr (env : Nat → Nat → Nat) (w : Nat) (e : Expr) :
+    ∀ s s', (∀ x ∈ exprVars e, s.vars x = s'.vars x) → s.rc = s'.rc →
+      (evalE env w e s).1 = (evalE env w e s').1 ∧ (evalE env w e s).2.rc = (evalE env w e s').2.rc := by
+  induction e with
+  | lit n => intro s s' _ hr; simp [evalE, hr]
+  | var x => intro s s' hv hr; simp [evalE, hr, hv x (by simp [exprVars])]
+  | ioread i => intro s s' _ hr; simp [evalE, hr]
+  | add a b iha ihb =>
+    intro s s' hv hr
+    have ha := iha s s' (fun x hx => hv x (by simp [exprVars, hx])) hr
+    have hb := ihb (evalE env w a s).2 (evalE env w a s').2
+      (fun x hx => by rw [(evalE_frame env w a s).1, (evalE_frame env w a s').1]; exact hv x (by simp [exprVars, hx]))
+      ha.2
+    simp only [evalE]
+    exact ⟨by rw [ha.1, hb.1], hb.2⟩
+  | mul a b iha ihb =>
+    intro s s' hv hr
+    have ha := iha s s' (fun x hx => hv x (by simp [exprVars, hx])) hr
+    have hb := ihb (evalE env w a s).2 (evalE env w a s').2
+      (fun x hx => by rw [(evalE_frame env w a s).1, (evalE_frame env w a s').1]; exact hv x (by simp [exprVars, hx]))
+      ha.2
+    simp only [evalE]
+    exact ⟨by rw [ha.1, hb.1], hb.2⟩
+
+/-- the source state completed with the machine's values for the variables that are out of scope:
+    it agrees with the machine on *every* variable -/
+def complete (ls : List Loc) (cfg : Cfg) (s : Src) : Src :=
+  { s with vars := fun x => match ls[x]? with
+      | some (.reg g) => cfg.regs g
+      | some (.mem m) => cfg.mem m
+      | none => s.vars x }
+
+theorem complete_agree {ls : List Loc} {live busy : List Nat} {cfg : Cfg} {s : Src}
+    (hag : AgreeL ls live cfg s) (hvr : VarRegsIn ls busy) :
+    Agree ls busy cfg (complete ls cfg s) ∧ (complete ls cfg s).rc = s.rc ∧
+    (complete ls cfg s).outs = s.outs ∧ ∀ x ∈ live, (complete ls cfg s).vars x = s.vars x := by
+  refine ⟨⟨fun x g hl => ⟨by simp [complete, hl], hvr x g hl⟩, fun x m hl => by simp [complete, hl], hag.rc⟩,
+    rfl, rfl, fun x hx => ?_⟩
+  simp only [complete]
+  split
+  · rename_i g hl; exact hag.regv x hx g hl
+  · rename_i m hl; exact hag.memv x hx m hl
+  · rfl
+
+/-- `ExprOK` for a state that agrees on the variables in scope only -/
+theorem exprL (env : Nat → Nat → Nat) (w : Nat) (ls : List Loc) (e : Expr) (live : List Nat)
+    (busy : List Nat) (c : List Instr) (r : Nat) (busy' : List Nat)
+    (h : compileE ls e busy = some (c, r, busy'))
+    (pre post : List Instr) (cfg : Cfg) (s : Src) (hpc : cfg.pc = pre.length)
+    (hag : AgreeL ls live cfg s) (hvr : VarRegsIn ls busy) (hv : ∀ x ∈ exprVars e, x ∈ live) :
+    (isaRun env w (pre ++ c ++ post) c.length cfg).pc = pre.length + c.length ∧
+    (isaRun env w (pre ++ c ++ post) c.length cfg).regs r = (evalE env w e s).1 ∧
+    (isaRun env w (pre ++ c ++ post) c.length cfg).mem = cfg.mem ∧
+    (isaRun env w (pre ++ c ++ post) c.length cfg).outs = cfg.outs ∧
+    (isaRun env w (pre ++ c ++ post) c.length cfg).rc = (evalE env w e s).2.rc ∧
+    (evalE env w e s).2.vars = s.vars ∧ (evalE env w e s).2.outs = s.outs ∧
+    (∀ x ∈ busy, (isaRun env w (pre ++ c ++ post) c.length cfg).regs x = cfg.regs x) := by
+  obtain ⟨k1, k2, k3, k4⟩ := complete_agree (busy := busy) hag hvr
+  obtain ⟨a1, a2, a3, a4, a5, _, _, a8⟩ := exprOK_all env w ls e busy c r busy' h pre post cfg _ hpc k1
+  have hc := evalE_congr env w e (complete ls cfg s) s (fun x hx => k4 x (hv x hx)) k2
+  have hf := evalE_frame env w e s
+  exact ⟨a1, by rw [a2, hc.1], a3, a4, by rw [a5, hc.2], hf.1, hf.2, a8⟩
+
+
+
+/-! ### reachability on the machine -/
+
+/-- `cfg'` is reached from `cfg` after some number of instructions -/
+def Reaches (env : Nat → Nat → Nat) (w : Nat) (P : List Instr) (cfg cfg' : Cfg) : Prop :=
+  ∃ n, isaRun env w P n cfg = cfg'
+
+theorem Reaches.refl (env : Nat → Nat → Nat) (w : Nat) (P : List Instr) (cfg : Cfg) : Reaches env w P cfg cfg :=
+  ⟨0, rfl⟩
+
+theorem Reaches.trans {env : Nat → Nat → Nat} {w : Nat} {P : List Instr} {a b c : Cfg}
+    (h1 : Reaches env w P a b) (h2 : Reaches env w P b c) : Reaches env w P a c := by
+  obtain ⟨n, hn⟩ := h1
+  obtain ⟨m, hm⟩ := h2
+  exact ⟨n + m, by rw [isaRun_add, hn, hm]⟩
+
+/-- one instruction, found at the pc -/
+theorem Reaches.step {env : Nat → Nat → Nat} {w : Nat} {P : List Instr} {cfg : Cfg} {i : Instr}
+    (h : P[cfg.pc]? = some i) : Reaches env w P cfg (execInstr env w cfg i) :=
+  ⟨1, by simp [isaRun, isaStep, h]⟩
+
+theorem getElem?_mid (pre post : List Instr) (i : Instr) : (pre ++ i :: post)[pre.length]? = some i := by
+  simp
+
+/-- the instruction at offset `k` of the middle part of `pre ++ c ++ post` -/
+theorem getElem?_code (pre c post : List Instr) (k : Nat) (i : Instr) (h : c[k]? = some i) :
+    (pre ++ c ++ post)[pre.length + k]? = some i := by
+  have hk : k < c.length := by
+    rcases Nat.lt_or_ge k c.length with h' | h'
+    · exact h'
+    · rw [List.getElem?_eq_none h'] at h; cases h
+  rw [List.append_assoc, List.getElem?_append_right (by omega)]
+  simp only [Nat.add_sub_cancel_left]
+  rw [List.getElem?_append_left hk]
+  exact h
+
+
+
+theorem AgreeL.after_expr {ls : List Loc} {live busy : List Nat} {cfg cfg' : Cfg} {s s' : Src}
+    (hag : AgreeL ls live cfg s) (hvr : VarRegsIn ls busy)
+    (hregs : ∀ x ∈ busy, cfg'.regs x = cfg.regs x) (hmem : cfg'.mem = cfg.mem)
+    (hrc : cfg'.rc = s'.rc) (hvars : s'.vars = s.vars) : AgreeL ls live cfg' s' :=
+  ⟨fun x hx g hl => by rw [hregs g (hvr x g hl), hag.regv x hx g hl, hvars],
+   fun x hx m hl => by rw [hmem, hag.memv x hx m hl, hvars], hrc⟩
+
+theorem getElem?_tail (ca cb tail : List Instr) (k : Nat) :
+    (ca ++ cb ++ tail)[ca.length + cb.length + k]? = tail[k]? := by
+  rw [List.getElem?_append_right (by simp)]
+  simp
+
+/-- the code of `a == b` (placed at its own address) leaves 1 or 0 in the result register -/
+theorem condL (env : Nat → Nat → Nat) (w : Nat) (hw : 0 < w) (ls : List Loc) (cnd : Cond)
+    (live busy : List Nat) (base : Nat) (cc : List Instr) (rc : Nat) (busy1 : List Nat)
+    (h : compileC ls base cnd busy = some (cc, rc, busy1))
+    (pre post : List Instr) (cfg : Cfg) (s : Src) (hb : base = pre.length) (hpc : cfg.pc = pre.length)
+    (hag : AgreeL ls live cfg s) (hvr : VarRegsIn ls busy) (hv : ∀ x ∈ condVars cnd, x ∈ live) :
+    ∃ cfg', Reaches env w (pre ++ cc ++ post) cfg cfg' ∧ cfg'.pc = pre.length + cc.length ∧
+      cfg'.regs rc = (if (evalC env w cnd s).1 then 1 else 0) ∧ cfg'.mem = cfg.mem ∧ cfg'.outs = cfg.outs ∧
+      cfg'.rc = (evalC env w cnd s).2.rc ∧ (evalC env w cnd s).2.vars = s.vars ∧
+      (evalC env w cnd s).2.outs = s.outs ∧ (∀ x ∈ busy, cfg'.regs x = cfg.regs x) ∧
+      (∀ x ∈ busy, x ∈ busy1.erase rc) := by
+  cases cnd with
+  | eq a b =>
+  simp only [compileC] at h
+  split at h
+  · cases h
+  · rename_i ca ra busyA ha
+    split at h
+    · cases h
+    · rename_i cb rb busyB hcb
+      simp only [Option.some.injEq, Prod.mk.injEq] at h
+      obtain ⟨e1, e2, e3⟩ := h
+      subst e2
+      obtain ⟨ma1, ma2, ma3⟩ := compileE_mono ls a _ _ _ _ ha
+      obtain ⟨mb1, mb2, mb3⟩ := compileE_mono ls b _ _ _ _ hcb
+      have hfr := fresh_not_mem busyB
+      -- the four trailing instructions
+      let q := ca.length + cb.length
+      let i0 : Instr := .je ra rb (base + ca.length + cb.length + 3)
+      let i1 : Instr := .rset (fresh busyB) 0
+      let i2 : Instr := .j (base + ca.length + cb.length + 4)
+      let i3 : Instr := .rset (fresh busyB) 1
+      let tail : List Instr := [i0, i1, i2, i3]
+      have hcc : cc = ca ++ cb ++ tail := e1.symm
+      have hlen : cc.length = q + 4 := by rw [hcc]; simp [tail, q]; omega
+      have hva : ∀ x ∈ exprVars a, x ∈ live := fun x hx => hv x (by simp [condVars, hx])
+      have hvb : ∀ x ∈ exprVars b, x ∈ live := fun x hx => hv x (by simp [condVars, hx])
+      -- run a
+      have hP1 : pre ++ cc ++ post = pre ++ ca ++ (cb ++ tail ++ post) := by rw [hcc]; simp [List.append_assoc]
+      have hP2 : pre ++ cc ++ post = (pre ++ ca) ++ cb ++ (tail ++ post) := by rw [hcc]; simp [List.append_assoc]
+      obtain ⟨a1, a2, a3, a4, a5, a6, a7, a8⟩ :=
+        exprL env w ls a live busy ca ra busyA ha pre (cb ++ tail ++ post) cfg s hpc hag hvr hva
+      rw [← hP1] at a1 a2 a3 a4 a5 a8
+      have hag1 : AgreeL ls live (isaRun env w (pre ++ cc ++ post) ca.length cfg) (evalE env w a s).2 :=
+        hag.after_expr hvr a8 a3 a5 a6
+      have hvr1 : VarRegsIn ls busyA := fun x g hl => ma3 g (hvr x g hl)
+      obtain ⟨b1, b2, b3, b4, b5, b6, b7, b8⟩ :=
+        exprL env w ls b live busyA cb rb busyB hcb (pre ++ ca) (tail ++ post) _ _ (by rw [a1]; simp) hag1 hvr1 hvb
+      rw [← hP2, ← isaRun_add] at b1 b2 b3 b4 b5 b8
+      -- state after both operands
+      generalize hmid : isaRun env w (pre ++ cc ++ post) (ca.length + cb.length) cfg = mid at b1 b2 b3 b4 b5 b8
+      have hmidpc : mid.pc = pre.length + q := by rw [b1]; simp [q, Nat.add_assoc]
+      have hreach0 : Reaches env w (pre ++ cc ++ post) cfg mid := ⟨_, hmid⟩
+      have hra : mid.regs ra = (evalE env w a s).1 := by rw [b8 ra ma2, a2]
+      have hne : ra ≠ rb := fun e => mb1 (e ▸ ma2)
+      have hrcra : fresh busyB ≠ ra := fun e => hfr (e ▸ mb3 ra ma2)
+      have hbusy_mid : ∀ x ∈ busy, mid.regs x = cfg.regs x := fun x hx => by rw [b8 x (ma3 x hx), a8 x hx]
+      have hbusy_rc : ∀ x ∈ busy, x ≠ fresh busyB := fun x hx e => hfr (e ▸ mb3 x (ma3 x hx))
+      have hmono : ∀ x ∈ busy, x ∈ (((fresh busyB :: busyB).erase ra).erase rb).erase (fresh busyB) := by
+        intro x hx
+        have hxa : x ≠ ra := fun e => ma1 (e ▸ hx)
+        have hxb : x ≠ rb := fun e => mb1 (e ▸ ma3 x hx)
+        exact (List.mem_erase_of_ne (hbusy_rc x hx)).mpr ((List.mem_erase_of_ne hxb).mpr
+          ((List.mem_erase_of_ne hxa).mpr (List.mem_cons_of_mem _ (mb3 x (ma3 x hx)))))
+      -- instruction fetches
+      have hi0 : (pre ++ cc ++ post)[pre.length + q]? = some i0 :=
+        getElem?_code pre cc post q _ (by rw [hcc]; exact (getElem?_tail ca cb tail 0).trans rfl)
+      have hi1 : (pre ++ cc ++ post)[pre.length + (q + 1)]? = some i1 :=
+        getElem?_code pre cc post (q + 1) _ (by rw [hcc]; exact (getElem?_tail ca cb tail 1).trans rfl)
+      have hi2 : (pre ++ cc ++ post)[pre.length + (q + 2)]? = some i2 :=
+        getElem?_code pre cc post (q + 2) _ (by rw [hcc]; exact (getElem?_tail ca cb tail 2).trans rfl)
+      have hi3 : (pre ++ cc ++ post)[pre.length + (q + 3)]? = some i3 :=
+        getElem?_code pre cc post (q + 3) _ (by rw [hcc]; exact (getElem?_tail ca cb tail 3).trans rfl)
+      have hmem_mid : mid.mem = cfg.mem := by rw [b3, a3]
+      have houts_mid : mid.outs = cfg.outs := by rw [b4, a4]
+      have hone : 1 % 2 ^ w = 1 := Nat.mod_eq_of_lt (Nat.one_lt_two_pow (by omega))
+      subst e3
+      simp only [evalC]
+      by_cases heq : (evalE env w a s).1 = (evalE env w b (evalE env w a s).2).1
+      · -- equal: je jumps to `rset rc 1`
+        let c1 := execInstr env w mid i0
+        have r1 : Reaches env w (pre ++ cc ++ post) mid c1 := Reaches.step (by rw [hmidpc]; exact hi0)
+        have c1pc : c1.pc = pre.length + (q + 3) := by
+          simp [c1, i0, execInstr, hra, b2, heq, hb, q]; omega
+        let c2 := execInstr env w c1 i3
+        have r2 : Reaches env w (pre ++ cc ++ post) c1 c2 := Reaches.step (by rw [c1pc]; exact hi3)
+        refine ⟨c2, hreach0.trans (r1.trans r2), ?_, ?_, ?_, ?_, ?_, ?_, ?_, ?_, hmono⟩
+        · simp [c2, i3, execInstr, c1pc, hlen]; omega
+        · simp [c2, i3, execInstr, upd_same, heq, hone]
+        · simp [c2, c1, i0, i3, execInstr, hmem_mid]
+        · simp [c2, c1, i0, i3, execInstr, houts_mid]
+        · simp [c2, c1, i0, i3, execInstr, b5]
+        · rw [b6, a6]
+        · rw [b7, a7]
+        · intro x hx
+          simp [c2, c1, i0, i3, execInstr, upd_other _ _ _ _ (hbusy_rc x hx), hbusy_mid x hx]
+      · -- different: fall through to `rset rc 0`, then jump over `rset rc 1`
+        let c1 := execInstr env w mid i0
+        have r1 : Reaches env w (pre ++ cc ++ post) mid c1 := Reaches.step (by rw [hmidpc]; exact hi0)
+        have c1pc : c1.pc = pre.length + (q + 1) := by
+          simp [c1, i0, execInstr, hra, b2, heq, hmidpc]; omega
+        let c2 := execInstr env w c1 i1
+        have r2 : Reaches env w (pre ++ cc ++ post) c1 c2 := Reaches.step (by rw [c1pc]; exact hi1)
+        have c2pc : c2.pc = pre.length + (q + 2) := by simp [c2, i1, execInstr, c1pc]; omega
+        let c3 := execInstr env w c2 i2
+        have r3 : Reaches env w (pre ++ cc ++ post) c2 c3 := Reaches.step (by rw [c2pc]; exact hi2)
+        refine ⟨c3, hreach0.trans (r1.trans (r2.trans r3)), ?_, ?_, ?_, ?_, ?_, ?_, ?_, ?_, hmono⟩
+        · simp [c3, i2, execInstr, hlen, hb, q]; omega
+        · simp [c3, c2, i1, i2, execInstr, upd_same, heq]
+        · simp [c3, c2, c1, i0, i1, i2, execInstr, hmem_mid]
+        · simp [c3, c2, c1, i0, i1, i2, execInstr, houts_mid]
+        · simp [c3, c2, c1, i0, i1, i2, execInstr, b5]
+        · rw [b6, a6]
+        · rw [b7, a7]
+        · intro x hx
+          simp [c3, c2, c1, i0, i1, i2, execInstr, upd_other _ _ _ _ (hbusy_rc x hx), hbusy_mid x hx]
+
+
+
+/-- what the simulation theorem says about one statement executed with loop fuel `fuel` -/
+def StmtOK (env : Nat → Nat → Nat) (w : Nat) (ls : List Loc) (fuel : Nat) (st : Stmt) : Prop :=
+  ∀ (live : List Nat) (base : Nat) (busy : List Nat) (c : List Instr) (busy' : List Nat),
+    compileS ls st base busy = some (c, busy') → wfS ls st live = true → VarRegsIn ls busy → LiveInj ls live →
+    ∀ (pre post : List Instr) (cfg : Cfg) (s : Src), base = pre.length → cfg.pc = pre.length →
+      AgreeL ls live cfg s → cfg.outs = s.outs → (exec env w fuel st s).2 = true →
+      ∃ cfg', Reaches env w (pre ++ c ++ post) cfg cfg' ∧ cfg'.pc = pre.length + c.length ∧
+        AgreeL ls (live ++ topDecls st) cfg' (exec env w fuel st s).1 ∧
+        cfg'.outs = (exec env w fuel st s).1.outs
+
+/-- expression code followed by one more instruction (scoped agreement) -/
+theorem exprL_then (env : Nat → Nat → Nat) (w : Nat) (ls : List Loc) (e : Expr) (live : List Nat)
+    (busy : List Nat) (ce : List Instr) (r : Nat) (busy1 : List Nat)
+    (he : compileE ls e busy = some (ce, r, busy1)) (i : Instr)
+    (pre post : List Instr) (cfg : Cfg) (s : Src) (hpc : cfg.pc = pre.length)
+    (hag : AgreeL ls live cfg s) (hvr : VarRegsIn ls busy) (hv : ∀ x ∈ exprVars e, x ∈ live) :
+    ∃ mid : Cfg,
+      Reaches env w (pre ++ (ce ++ [i]) ++ post) cfg (execInstr env w mid i) ∧
+      mid.pc = pre.length + ce.length ∧ mid.regs r = (evalE env w e s).1 ∧ mid.mem = cfg.mem ∧
+      mid.outs = cfg.outs ∧ mid.rc = (evalE env w e s).2.rc ∧ (evalE env w e s).2.vars = s.vars ∧
+      (evalE env w e s).2.outs = s.outs ∧ (∀ x ∈ busy, mid.regs x = cfg.regs x) := by
+  have hP1 : pre ++ (ce ++ [i]) ++ post = pre ++ ce ++ ([i] ++ post) := by simp [List.append_assoc]
+  obtain ⟨a1, a2, a3, a4, a5, a6, a7, a8⟩ :=
+    exprL env w ls e live busy ce r busy1 he pre ([i] ++ post) cfg s hpc hag hvr hv
+  rw [← hP1] at a1 a2 a3 a4 a5 a8
+  refine ⟨isaRun env w (pre ++ (ce ++ [i]) ++ post) ce.length cfg, ?_, a1, a2, a3, a4, a5, a6, a7, a8⟩
+  refine Reaches.trans ⟨ce.length, rfl⟩ (Reaches.step ?_)
+  rw [a1]
+  exact getElem?_code pre (ce ++ [i]) post ce.length i (by simp)
+
+theorem stmtOK_assign (env : Nat → Nat → Nat) (w fuel : Nat) (ls : List Loc) (x : Nat) (e : Expr) :
+    StmtOK env w ls fuel (.assign x e) := by
+  intro live base busy c busy' h hwf hvr hinj pre post cfg s hb hpc hag ho hex
+  simp only [wfS, Bool.and_eq_true, List.contains_iff_mem, List.all_eq_true] at hwf
+  obtain ⟨hxl, hve⟩ := hwf
+  simp only [compileS] at h
+  simp only [topDecls, List.append_nil, exec]
+  split at h
+  · rename_i g ce r busy1 hl he
+    simp only [Option.some.injEq, Prod.mk.injEq] at h
+    obtain ⟨e1, e2⟩ := h; subst e1; subst e2
+    obtain ⟨mid, m0, m1, m2, m3, m4, m5, m6, m7, m8⟩ :=
+      exprL_then env w ls e live busy ce r busy1 he (.cpy g r) pre post cfg s hpc hag hvr hve
+    refine ⟨_, m0, by simp [execInstr, m1]; omega, ⟨fun y hy g' hly => ?_, fun y hy m hly => ?_, by simp [execInstr, m5]⟩,
+      by simp [execInstr, m4, ho, m7]⟩
+    · by_cases hyx : y = x
+      · subst hyx
+        rw [hl] at hly; cases hly
+        simp [execInstr, upd_same, m2]
+      · have : g' ≠ g := fun e' => hyx (hinj y hy x hxl _ hly (e' ▸ hl))
+        simp [execInstr, upd_other _ _ _ _ this, upd_other _ _ _ _ hyx, m8 g' (hvr y g' hly), hag.regv y hy g' hly, m6]
+    · have hyx : y ≠ x := fun e' => by subst e'; rw [hl] at hly; cases hly
+      simp [execInstr, upd_other _ _ _ _ hyx, m3, hag.memv y hy m hly, m6]
+  · rename_i mx ce r busy1 hl he
+    simp only [Option.some.injEq, Prod.mk.injEq] at h
+    obtain ⟨e1, e2⟩ := h; subst e1; subst e2
+    obtain ⟨mid, m0, m1, m2, m3, m4, m5, m6, m7, m8⟩ :=
+      exprL_then env w ls e live busy ce r busy1 he (.r2m r mx) pre post cfg s hpc hag hvr hve
+    refine ⟨_, m0, by simp [execInstr, m1]; omega, ⟨fun y hy g' hly => ?_, fun y hy m hly => ?_, by simp [execInstr, m5]⟩,
+      by simp [execInstr, m4, ho, m7]⟩
+    · have hyx : y ≠ x := fun e' => by subst e'; rw [hl] at hly; cases hly
+      simp [execInstr, upd_other _ _ _ _ hyx, m8 g' (hvr y g' hly), hag.regv y hy g' hly, m6]
+    · by_cases hyx : y = x
+      · subst hyx
+        rw [hl] at hly; cases hly
+        simp [execInstr, upd_same, m2]
+      · have : m ≠ mx := fun e' => hyx (hinj y hy x hxl _ hly (e' ▸ hl))
+        simp [execInstr, upd_other _ _ _ _ this, upd_other _ _ _ _ hyx, m3, hag.memv y hy m hly, m6]
+  · cases h
+
+theorem stmtOK_iowrite (env : Nat → Nat → Nat) (w fuel : Nat) (ls : List Loc) (o : Nat) (e : Expr) :
+    StmtOK env w ls fuel (.iowrite o e) := by
+  intro live base busy c busy' h hwf hvr hinj pre post cfg s hb hpc hag ho hex
+  simp only [wfS, List.contains_iff_mem, List.all_eq_true] at hwf
+  simp only [compileS] at h
+  simp only [topDecls, List.append_nil, exec]
+  split at h
+  · rename_i ce r busy1 he
+    simp only [Option.some.injEq, Prod.mk.injEq] at h
+    obtain ⟨e1, e2⟩ := h; subst e1; subst e2
+    obtain ⟨mid, m0, m1, m2, m3, m4, m5, m6, m7, m8⟩ :=
+      exprL_then env w ls e live busy ce r busy1 he (.r2o r o) pre post cfg s hpc hag hvr hwf
+    refine ⟨_, m0, by simp [execInstr, m1]; omega, ⟨fun y hy g' hly => ?_, fun y hy m hly => ?_, by simp [execInstr, m5]⟩,
+      by simp [execInstr, m4, ho, m7, m2]⟩
+    · simp [execInstr, m8 g' (hvr y g' hly), hag.regv y hy g' hly, m6]
+    · simp [execInstr, m3, hag.memv y hy m hly, m6]
+  · cases h
+
+
+
+/-- `x++` / `x--` with scoped agreement: `iop` is `inc` or `dec`, `f` its effect on a value -/
+theorem incdecL (env : Nat → Nat → Nat) (w : Nat) (ls : List Loc)
+    (iop : Nat → Instr) (f : Nat → Nat)
+    (hop : ∀ (c : Cfg) (r : Nat), execInstr env w c (iop r) = { c with pc := c.pc + 1, regs := upd c.regs r (f (c.regs r)) })
+    (x : Nat) (live busy : List Nat) (c : List Instr) (busy' : List Nat)
+    (h : (match ls[x]? with
+      | some (.reg g) => some ([iop g], busy)
+      | some (.mem m) => some ([.m2r (fresh busy) m, iop (fresh busy), .r2m (fresh busy) m], busy)
+      | none => none) = some (c, busy'))
+    (hxl : x ∈ live) (hvr : VarRegsIn ls busy) (hinj : LiveInj ls live)
+    (pre post : List Instr) (cfg : Cfg) (s : Src) (hpc : cfg.pc = pre.length) (hag : AgreeL ls live cfg s)
+    (ho : cfg.outs = s.outs) :
+    ∃ cfg', Reaches env w (pre ++ c ++ post) cfg cfg' ∧ cfg'.pc = pre.length + c.length ∧
+      AgreeL ls live cfg' { s with vars := upd s.vars x (f (s.vars x)) } ∧ cfg'.outs = s.outs := by
+  split at h
+  · rename_i g hl
+    simp only [Option.some.injEq, Prod.mk.injEq] at h
+    obtain ⟨e1, e2⟩ := h; subst e1; subst e2
+    refine ⟨execInstr env w cfg (iop g),
+      Reaches.step (by rw [hpc]; exact getElem?_code pre [iop g] post 0 _ rfl), ?_, ?_, ?_⟩
+    · rw [hop]; simp [hpc]
+    · rw [hop]
+      refine ⟨fun y hy g' hly => ?_, fun y hy m hly => ?_, hag.rc⟩
+      · by_cases hyx : y = x
+        · subst hyx
+          rw [hl] at hly; cases hly
+          simp [upd_same, hag.regv y hy g hl]
+        · have : g' ≠ g := fun e' => hyx (hinj y hy x hxl _ hly (e' ▸ hl))
+          simp [upd_other _ _ _ _ this, upd_other _ _ _ _ hyx, hag.regv y hy g' hly]
+      · have hyx : y ≠ x := fun e' => by subst e'; rw [hl] at hly; cases hly
+        simp [upd_other _ _ _ _ hyx, hag.memv y hy m hly]
+    · rw [hop]; exact ho
+  · rename_i mx hl
+    simp only [Option.some.injEq, Prod.mk.injEq] at h
+    obtain ⟨e1, e2⟩ := h; subst e1; subst e2
+    let c1 := execInstr env w cfg (.m2r (fresh busy) mx)
+    let c2 := execInstr env w c1 (iop (fresh busy))
+    let c3 := execInstr env w c2 (.r2m (fresh busy) mx)
+    have r1 : Reaches env w (pre ++ [Instr.m2r (fresh busy) mx, iop (fresh busy), Instr.r2m (fresh busy) mx] ++ post) cfg c1 :=
+      Reaches.step (by rw [hpc]; exact getElem?_code pre _ post 0 _ rfl)
+    have c1pc : c1.pc = pre.length + 1 := by simp [c1, execInstr, hpc]
+    have r2 : Reaches env w (pre ++ [Instr.m2r (fresh busy) mx, iop (fresh busy), Instr.r2m (fresh busy) mx] ++ post) c1 c2 :=
+      Reaches.step (by rw [c1pc]; exact getElem?_code pre _ post 1 _ rfl)
+    have c2pc : c2.pc = pre.length + 2 := by simp only [c2]; rw [hop]; simp [c1pc]
+    have r3 : Reaches env w (pre ++ [Instr.m2r (fresh busy) mx, iop (fresh busy), Instr.r2m (fresh busy) mx] ++ post) c2 c3 :=
+      Reaches.step (by rw [c2pc]; exact getElem?_code pre _ post 2 _ rfl)
+    have hc2 : c2 = { c1 with pc := c1.pc + 1, regs := upd c1.regs (fresh busy) (f (c1.regs (fresh busy))) } := hop c1 (fresh busy)
+    refine ⟨c3, r1.trans (r2.trans r3), ?_, ⟨fun y hy g' hly => ?_, fun y hy m hly => ?_, ?_⟩, ?_⟩
+    · simp [c3, execInstr, c2pc]
+    · have hg' : g' ≠ fresh busy := fun e' => fresh_not_mem busy (e' ▸ hvr y g' hly)
+      have hyx : y ≠ x := fun e' => by subst e'; rw [hl] at hly; cases hly
+      simp [c3, hc2, c1, execInstr, upd_other _ _ _ _ hg', upd_other _ _ _ _ hyx, hag.regv y hy g' hly]
+    · by_cases hyx : y = x
+      · subst hyx
+        rw [hl] at hly; cases hly
+        simp [c3, hc2, c1, execInstr, upd_same, hag.memv y hy _ hl]
+      · have : m ≠ mx := fun e' => hyx (hinj y hy x hxl _ hly (e' ▸ hl))
+        simp [c3, hc2, c1, execInstr, upd_other _ _ _ _ this, upd_other _ _ _ _ hyx, hag.memv y hy m hly]
+    · simp [c3, hc2, c1, execInstr, hag.rc]
+    · simp [c3, hc2, c1, execInstr, ho]
+  · cases h
+
+theorem stmtOK_inc (env : Nat → Nat → Nat) (w fuel : Nat) (ls : List Loc) (x : Nat) :
+    StmtOK env w ls fuel (.inc x) := by
+  intro live base busy c busy' h hwf hvr hinj pre post cfg s hb hpc hag ho hex
+  simp only [wfS, List.contains_iff_mem] at hwf
+  simp only [compileS] at h
+  simp only [topDecls, List.append_nil, exec]
+  exact incdecL env w ls Instr.inc (fun v => (v + 1) % 2 ^ w) (fun c r => by simp [execInstr])
+    x live busy c busy' h hwf hvr hinj pre post cfg s hpc hag ho
+
+theorem stmtOK_dec (env : Nat → Nat → Nat) (w fuel : Nat) (ls : List Loc) (x : Nat) :
+    StmtOK env w ls fuel (.dec x) := by
+  intro live base busy c busy' h hwf hvr hinj pre post cfg s hb hpc hag ho hex
+  simp only [wfS, List.contains_iff_mem] at hwf
+  simp only [compileS] at h
+  simp only [topDecls, List.append_nil, exec]
+  exact incdecL env w ls Instr.dec (fun v => (v + (2 ^ w - 1)) % 2 ^ w) (fun c r => by simp [execInstr])
+    x live busy c busy' h hwf hvr hinj pre post cfg s hpc hag ho
+
+/-- `var x uintW` inside a block: `clr (fresh busy); r2m (fresh busy) m` -/
+theorem stmtOK_decl (env : Nat → Nat → Nat) (w fuel : Nat) (ls : List Loc) (x : Nat) :
+    StmtOK env w ls fuel (.decl x) := by
+  intro live base busy c busy' h hwf hvr hinj pre post cfg s hb hpc hag ho hex
+  simp only [compileS] at h
+  simp only [topDecls, exec]
+  simp only [wfS, Bool.and_eq_true] at hwf
+  obtain ⟨hxl0, hcell⟩ := hwf
+  have hxl : x ∉ live := fun hm => by rw [List.contains_iff_mem.mpr hm] at hxl0; cases hxl0
+  split at h
+  · rename_i mx hl
+    simp only [Option.some.injEq, Prod.mk.injEq] at h
+    obtain ⟨e1, e2⟩ := h; subst e1; subst e2
+    rw [hl] at hcell
+    simp only [List.all_eq_true, bne_iff_ne, ne_eq] at hcell
+    let c1 := execInstr env w cfg (.clr (fresh busy))
+    let c2 := execInstr env w c1 (.r2m (fresh busy) mx)
+    have r1 : Reaches env w (pre ++ [Instr.clr (fresh busy), Instr.r2m (fresh busy) mx] ++ post) cfg c1 :=
+      Reaches.step (by rw [hpc]; exact getElem?_code pre _ post 0 _ rfl)
+    have c1pc : c1.pc = pre.length + 1 := by simp [c1, execInstr, hpc]
+    have r2 : Reaches env w (pre ++ [Instr.clr (fresh busy), Instr.r2m (fresh busy) mx] ++ post) c1 c2 :=
+      Reaches.step (by rw [c1pc]; exact getElem?_code pre _ post 1 _ rfl)
+    refine ⟨c2, r1.trans r2, by simp [c2, execInstr, c1pc], ⟨fun y hy g' hly => ?_, fun y hy m hly => ?_, ?_⟩, ?_⟩
+    · have hyx : y ≠ x := fun e' => by subst e'; rw [hl] at hly; cases hly
+      have hyl : y ∈ live := by
+        rcases List.mem_append.mp hy with h' | h'
+        · exact h'
+        · simp only [List.mem_singleton] at h'; exact absurd h' hyx
+      have hg' : g' ≠ fresh busy := fun e' => fresh_not_mem busy (e' ▸ hvr y g' hly)
+      simp [c2, c1, execInstr, upd_other _ _ _ _ hg', upd_other _ _ _ _ hyx, hag.regv y hyl g' hly]
+    · by_cases hyx : y = x
+      · subst hyx
+        rw [hl] at hly; cases hly
+        simp [c2, c1, execInstr, upd_same]
+      · have hyl : y ∈ live := by
+          rcases List.mem_append.mp hy with h' | h'
+          · exact h'
+          · simp only [List.mem_singleton] at h'; exact absurd h' hyx
+        have : m ≠ mx := fun e' => hcell y hyl (e' ▸ hly)
+        simp [c2, c1, execInstr, upd_other _ _ _ _ this, upd_other _ _ _ _ hyx, hag.memv y hyl m hly]
+    · simp [c2, c1, execInstr, hag.rc]
+    · simp [c2, c1, execInstr, ho]
+  · cases h
+
+
+
+theorem compileC_mono (ls : List Loc) (base : Nat) (cnd : Cond) (busy : List Nat) (cc : List Instr) (rc : Nat)
+    (busy1 : List Nat) (h : compileC ls base cnd busy = some (cc, rc, busy1)) :
+    ∀ x ∈ busy, x ∈ busy1.erase rc := by
+  cases cnd with
+  | eq a b =>
+  simp only [compileC] at h
+  split at h
+  · cases h
+  · rename_i ca ra busyA ha
+    split at h
+    · cases h
+    · rename_i cb rb busyB hcb
+      simp only [Option.some.injEq, Prod.mk.injEq] at h
+      obtain ⟨_, e2, e3⟩ := h
+      subst e2; subst e3
+      obtain ⟨ma1, ma2, ma3⟩ := compileE_mono ls a _ _ _ _ ha
+      obtain ⟨mb1, mb2, mb3⟩ := compileE_mono ls b _ _ _ _ hcb
+      intro x hx
+      have hfr := fresh_not_mem busyB
+      have hxa : x ≠ ra := fun e => ma1 (e ▸ hx)
+      have hxb : x ≠ rb := fun e => mb1 (e ▸ ma3 x hx)
+      have hxc : x ≠ fresh busyB := fun e => hfr (e ▸ mb3 x (ma3 x hx))
+      exact (List.mem_erase_of_ne hxc).mpr ((List.mem_erase_of_ne hxb).mpr
+        ((List.mem_erase_of_ne hxa).mpr (List.mem_cons_of_mem _ (mb3 x (ma3 x hx)))))
+
+/-- registers that are busy before a statement is compiled are still busy afterwards (temporaries
+    are taken from the free ones and given back) -/
+theorem compileS_mono (ls : List Loc) (st : Stmt) :
+    ∀ (base : Nat) (busy : List Nat) (c : List Instr) (busy' : List Nat),
+      compileS ls st base busy = some (c, busy') → ∀ x ∈ busy, x ∈ busy' := by
+  induction st with
+  | skip =>
+    intro base busy c busy' h x hx
+    simp only [compileS, Option.some.injEq, Prod.mk.injEq] at h
+    exact h.2 ▸ hx
+  | seq a b iha ihb =>
+    intro base busy c busy' h x hx
+    simp only [compileS] at h
+    split at h
+    · cases h
+    · rename_i c1 busy1 h1
+      split at h
+      · cases h
+      · rename_i c2 busy2 h2
+        simp only [Option.some.injEq, Prod.mk.injEq] at h
+        exact h.2 ▸ ihb _ _ _ _ h2 x (iha _ _ _ _ h1 x hx)
+  | assign v e =>
+    intro base busy c busy' h x hx
+    simp only [compileS] at h
+    split at h
+    · rename_i g ce r busy1 hl he
+      simp only [Option.some.injEq, Prod.mk.injEq] at h
+      obtain ⟨q1, _, q3⟩ := compileE_mono ls e _ _ _ _ he
+      exact h.2 ▸ (List.mem_erase_of_ne (fun (e' : x = r) => q1 (e' ▸ hx))).mpr (q3 x hx)
+    · rename_i m ce r busy1 hl he
+      simp only [Option.some.injEq, Prod.mk.injEq] at h
+      obtain ⟨q1, _, q3⟩ := compileE_mono ls e _ _ _ _ he
+      exact h.2 ▸ (List.mem_erase_of_ne (fun (e' : x = r) => q1 (e' ▸ hx))).mpr (q3 x hx)
+    · cases h
+  | inc v =>
+    intro base busy c busy' h x hx
+    simp only [compileS] at h
+    split at h <;> (try (simp only [Option.some.injEq, Prod.mk.injEq] at h; exact h.2 ▸ hx)) <;> cases h
+  | dec v =>
+    intro base busy c busy' h x hx
+    simp only [compileS] at h
+    split at h <;> (try (simp only [Option.some.injEq, Prod.mk.injEq] at h; exact h.2 ▸ hx)) <;> cases h
+  | decl v =>
+    intro base busy c busy' h x hx
+    simp only [compileS] at h
+    split at h <;> (try (simp only [Option.some.injEq, Prod.mk.injEq] at h; exact h.2 ▸ hx)) <;> cases h
+  | iowrite o e =>
+    intro base busy c busy' h x hx
+    simp only [compileS] at h
+    split at h
+    · rename_i ce r busy1 he
+      simp only [Option.some.injEq, Prod.mk.injEq] at h
+      exact h.2 ▸ (compileE_mono ls e _ _ _ _ he).2.2 x hx
+    · cases h
+  | ifThen cnd t iht =>
+    intro base busy c busy' h x hx
+    simp only [compileS] at h
+    split at h
+    · cases h
+    · rename_i cc rc busy1 hc
+      split at h
+      · cases h
+      · rename_i ct busy2 ht
+        simp only [Option.some.injEq, Prod.mk.injEq] at h
+        exact h.2 ▸ iht _ _ _ _ ht x (compileC_mono ls _ _ _ _ _ _ hc x hx)
+  | ifElse cnd t e iht ihe =>
+    intro base busy c busy' h x hx
+    simp only [compileS] at h
+    split at h
+    · cases h
+    · rename_i cc rc busy1 hc
+      split at h
+      · cases h
+      · rename_i ct busy2 ht
+        split at h
+        · cases h
+        · rename_i ce busy3 he
+          simp only [Option.some.injEq, Prod.mk.injEq] at h
+          exact h.2 ▸ ihe _ _ _ _ he x (iht _ _ _ _ ht x (compileC_mono ls _ _ _ _ _ _ hc x hx))
+  | loop oc body ihb =>
+    intro base busy c busy' h x hx
+    cases oc with
+    | none =>
+      simp only [compileS] at h
+      split at h
+      · cases h
+      · rename_i cb busy1 hb
+        simp only [Option.some.injEq, Prod.mk.injEq] at h
+        exact h.2 ▸ ihb _ _ _ _ hb x hx
+    | some cnd =>
+      simp only [compileS] at h
+      split at h
+      · cases h
+      · rename_i cc rc busy1 hc
+        split at h
+        · cases h
+        · rename_i cb busy2 hb
+          simp only [Option.some.injEq, Prod.mk.injEq] at h
+          exact h.2 ▸ ihb _ _ _ _ hb x (compileC_mono ls _ _ _ _ _ _ hc x hx)
+
+theorem VarRegsIn.mono {ls : List Loc} {busy busy' : List Nat} (h : VarRegsIn ls busy)
+    (hs : ∀ x ∈ busy, x ∈ busy') : VarRegsIn ls busy' := fun x g hl => hs g (h x g hl)
+
+/-- a well-placed statement keeps the variables in scope in pairwise distinct places -/
+theorem wfS_liveInj (ls : List Loc) (st : Stmt) :
+    ∀ live, wfS ls st live = true → LiveInj ls live → LiveInj ls (live ++ topDecls st) := by
+  induction st with
+  | seq a b iha ihb =>
+    intro live hwf hinj
+    simp only [wfS, Bool.and_eq_true] at hwf
+    simp only [topDecls, ← List.append_assoc]
+    exact ihb _ hwf.2 (iha _ hwf.1 hinj)
+  | decl x =>
+    intro live hwf hinj
+    simp only [wfS, Bool.and_eq_true] at hwf
+    obtain ⟨hxl0, hcell⟩ := hwf
+    have hxl : x ∉ live := fun hm => by rw [List.contains_iff_mem.mpr hm] at hxl0; cases hxl0
+    simp only [topDecls]
+    split at hcell
+    · rename_i mx hl
+      simp only [List.all_eq_true, bne_iff_ne, ne_eq] at hcell
+      intro y hy z hz l hly hlz
+      rcases List.mem_append.mp hy with hy1 | hy1 <;> rcases List.mem_append.mp hz with hz1 | hz1
+      · exact hinj y hy1 z hz1 l hly hlz
+      · simp only [List.mem_singleton] at hz1; subst hz1
+        rw [hl] at hlz; cases hlz
+        exact absurd hly (hcell y hy1)
+      · simp only [List.mem_singleton] at hy1; subst hy1
+        rw [hl] at hly; cases hly
+        exact absurd hlz (hcell z hz1)
+      · simp only [List.mem_singleton] at hy1 hz1; rw [hy1, hz1]
+    · cases hcell
+  | skip => intro live _ hinj; simpa [topDecls] using hinj
+  | assign _ _ => intro live _ hinj; simpa [topDecls] using hinj
+  | inc _ => intro live _ hinj; simpa [topDecls] using hinj
+  | dec _ => intro live _ hinj; simpa [topDecls] using hinj
+  | iowrite _ _ => intro live _ hinj; simpa [topDecls] using hinj
+  | ifThen _ _ _ => intro live _ hinj; simpa [topDecls] using hinj
+  | ifElse _ _ _ _ _ => intro live _ hinj; simpa [topDecls] using hinj
+  | loop _ _ _ => intro live _ hinj; simpa [topDecls] using hinj
+
+
+
+theorem stmtOK_skip (env : Nat → Nat → Nat) (w fuel : Nat) (ls : List Loc) : StmtOK env w ls fuel .skip := by
+  intro live base busy c busy' h hwf hvr hinj pre post cfg s hb hpc hag ho hex
+  simp only [compileS, Option.some.injEq, Prod.mk.injEq] at h
+  obtain ⟨e1, e2⟩ := h; subst e1; subst e2
+  simp only [topDecls, List.append_nil, exec]
+  exact ⟨cfg, Reaches.refl _ _ _ _, by simp [hpc], hag, ho⟩
+
+theorem stmtOK_seq (env : Nat → Nat → Nat) (w fuel : Nat) (ls : List Loc) (a b : Stmt)
+    (iha : StmtOK env w ls fuel a) (ihb : StmtOK env w ls fuel b) : StmtOK env w ls fuel (.seq a b) := by
+  intro live base busy c busy' h hwf hvr hinj pre post cfg s hb hpc hag ho hex
+  simp only [wfS, Bool.and_eq_true] at hwf
+  simp only [compileS] at h
+  split at h
+  · cases h
+  · rename_i c1 busy1 h1
+    split at h
+    · cases h
+    · rename_i c2 busy2 h2
+      simp only [Option.some.injEq, Prod.mk.injEq] at h
+      obtain ⟨e1, e2⟩ := h; subst e1; subst e2
+      have hP1 : pre ++ (c1 ++ c2) ++ post = pre ++ c1 ++ (c2 ++ post) := by simp [List.append_assoc]
+      have hP2 : pre ++ (c1 ++ c2) ++ post = (pre ++ c1) ++ c2 ++ post := by simp [List.append_assoc]
+      simp only [exec] at hex ⊢
+      generalize hr : exec env w fuel a s = r at hex ⊢
+      obtain ⟨s1, f1⟩ := r
+      cases f1 with
+      | false => simp at hex
+      | true =>
+        simp only at hex ⊢
+        obtain ⟨cfg1, x1, x2, x3, x4⟩ := iha live base busy c1 busy1 h1 hwf.1 hvr hinj pre (c2 ++ post) cfg s hb hpc hag ho
+          (by rw [hr])
+        rw [hr] at x3 x4
+        rw [← hP1] at x1
+        obtain ⟨cfg2, y1, y2, y3, y4⟩ := ihb (live ++ topDecls a) (base + c1.length) busy1 c2 busy2 h2 hwf.2
+          (hvr.mono (compileS_mono ls a _ _ _ _ h1)) (wfS_liveInj ls a live hwf.1 hinj)
+          (pre ++ c1) post cfg1 s1 (by rw [hb]; simp) (by rw [x2]; simp) x3 x4 hex
+        rw [← hP2] at y1
+        refine ⟨cfg2, x1.trans y1, by rw [y2]; simp [Nat.add_assoc], ?_, y4⟩
+        simpa [topDecls, List.append_assoc] using y3
+
+
+
+theorem stmtOK_ifThen (env : Nat → Nat → Nat) (w : Nat) (hw : 0 < w) (fuel : Nat) (ls : List Loc)
+    (cnd : Cond) (t : Stmt) (iht : StmtOK env w ls fuel t) : StmtOK env w ls fuel (.ifThen cnd t) := by
+  intro live base busy c busy' h hwf hvr hinj pre post cfg s hb hpc hag ho hex
+  simp only [wfS, Bool.and_eq_true, List.all_eq_true, List.contains_iff_mem] at hwf
+  obtain ⟨hvc, hwt⟩ := hwf
+  simp only [compileS] at h
+  split at h
+  · cases h
+  · rename_i cc rc busy1 hc
+    split at h
+    · cases h
+    · rename_i ct busy2 ht
+      simp only [Option.some.injEq, Prod.mk.injEq] at h
+      obtain ⟨e1, e2⟩ := h; subst e1; subst e2
+      let jz : Instr := .jz rc (base + cc.length + 1 + ct.length)
+      have hP1 : pre ++ (cc ++ [jz] ++ ct) ++ post = pre ++ cc ++ ([jz] ++ ct ++ post) := by simp [List.append_assoc]
+      have hP2 : pre ++ (cc ++ [jz] ++ ct) ++ post = (pre ++ cc ++ [jz]) ++ ct ++ post := by simp [List.append_assoc]
+      obtain ⟨cfgc, k1, k2, k3, k4, k5, k6, k7, k8, k9, k10⟩ :=
+        condL env w hw ls cnd live busy base cc rc busy1 hc pre ([jz] ++ ct ++ post) cfg s hb hpc hag hvr hvc
+      rw [← hP1] at k1
+      have hagc : AgreeL ls live cfgc (evalC env w cnd s).2 := hag.after_expr hvr k9 k4 k6 k7
+      have hfetch : (pre ++ (cc ++ [jz] ++ ct) ++ post)[cfgc.pc]? = some jz := by
+        rw [k2]; exact getElem?_code pre _ post cc.length jz (by simp)
+      have rj := Reaches.step (env := env) (w := w) hfetch
+      simp only [topDecls, List.append_nil]
+      simp only [exec] at hex ⊢
+      generalize hr : evalC env w cnd s = r at hex k3 k6 k7 k8 hagc ⊢
+      obtain ⟨bv, s1⟩ := r
+      have k8' : s1.outs = s.outs := k8
+      have hagc' : AgreeL ls live cfgc s1 := hagc
+      cases bv with
+      | false =>
+        simp only at hex k3 ⊢
+        refine ⟨execInstr env w cfgc jz, k1.trans rj, ?_, ?_, ?_⟩
+        · simp [jz, execInstr, k3, hb]; omega
+        · exact ⟨hagc'.regv, hagc'.memv, hagc'.rc⟩
+        · simp [jz, execInstr, k5, ho, k8']
+      | true =>
+        simp only at hex k3 ⊢
+        have hpcj : (execInstr env w cfgc jz).pc = (pre ++ cc ++ [jz]).length := by
+          simp [jz, execInstr, k3, k2]; omega
+        have hagj : AgreeL ls live (execInstr env w cfgc jz) s1 := ⟨hagc'.regv, hagc'.memv, hagc'.rc⟩
+        obtain ⟨cfg2, y1, y2, y3, y4⟩ := iht live (base + cc.length + 1) (busy1.erase rc) ct busy2 ht hwt
+          (hvr.mono k10) hinj (pre ++ cc ++ [jz]) post _ s1 (by rw [hb]; simp; omega) hpcj hagj
+          (by simp [jz, execInstr, k5, ho, k8']) hex
+        rw [← hP2] at y1
+        refine ⟨cfg2, k1.trans (rj.trans y1), by rw [y2]; simp; omega, y3.mono (fun x hx => List.mem_append_left _ hx), y4⟩
+
+
+
+theorem stmtOK_ifElse (env : Nat → Nat → Nat) (w : Nat) (hw : 0 < w) (fuel : Nat) (ls : List Loc)
+    (cnd : Cond) (t e : Stmt) (iht : StmtOK env w ls fuel t) (ihe : StmtOK env w ls fuel e) :
+    StmtOK env w ls fuel (.ifElse cnd t e) := by
+  intro live base busy c busy' h hwf hvr hinj pre post cfg s hb hpc hag ho hex
+  simp only [wfS, Bool.and_eq_true, List.all_eq_true, List.contains_iff_mem] at hwf
+  obtain ⟨⟨hvc, hwt⟩, hwe⟩ := hwf
+  simp only [compileS] at h
+  split at h
+  · cases h
+  · rename_i cc rc busy1 hc
+    split at h
+    · cases h
+    · rename_i ct busy2 ht
+      split at h
+      · cases h
+      · rename_i ce busy3 he
+        simp only [Option.some.injEq, Prod.mk.injEq] at h
+        obtain ⟨e1, e2⟩ := h; subst e1; subst e2
+        let jz : Instr := .jz rc (base + cc.length + 1 + ct.length + 1)
+        let jn : Instr := .j (base + cc.length + 1 + ct.length + 1 + ce.length)
+        have hP1 : pre ++ (cc ++ [jz] ++ ct ++ [jn] ++ ce) ++ post = pre ++ cc ++ ([jz] ++ ct ++ [jn] ++ ce ++ post) := by
+          simp [List.append_assoc]
+        have hP2 : pre ++ (cc ++ [jz] ++ ct ++ [jn] ++ ce) ++ post = (pre ++ cc ++ [jz]) ++ ct ++ ([jn] ++ ce ++ post) := by
+          simp [List.append_assoc]
+        have hP3 : pre ++ (cc ++ [jz] ++ ct ++ [jn] ++ ce) ++ post = (pre ++ cc ++ [jz] ++ ct ++ [jn]) ++ ce ++ post := by
+          simp [List.append_assoc]
+        have hlen : (cc ++ [jz] ++ ct ++ [jn] ++ ce).length = cc.length + 1 + ct.length + 1 + ce.length := by simp; omega
+        obtain ⟨cfgc, k1, k2, k3, k4, k5, k6, k7, k8, k9, k10⟩ :=
+          condL env w hw ls cnd live busy base cc rc busy1 hc pre ([jz] ++ ct ++ [jn] ++ ce ++ post) cfg s hb hpc hag hvr hvc
+        rw [← hP1] at k1
+        have hagc : AgreeL ls live cfgc (evalC env w cnd s).2 := hag.after_expr hvr k9 k4 k6 k7
+        have hfetch : (pre ++ (cc ++ [jz] ++ ct ++ [jn] ++ ce) ++ post)[cfgc.pc]? = some jz := by
+          rw [k2]; exact getElem?_code pre _ post cc.length jz (by simp)
+        have rj := Reaches.step (env := env) (w := w) hfetch
+        simp only [topDecls, List.append_nil]
+        simp only [exec] at hex ⊢
+        generalize hr : evalC env w cnd s = r at hex k3 k6 k7 k8 hagc ⊢
+        obtain ⟨bv, s1⟩ := r
+        have k8' : s1.outs = s.outs := k8
+        have hagc' : AgreeL ls live cfgc s1 := hagc
+        have hagj : AgreeL ls live (execInstr env w cfgc jz) s1 := ⟨hagc'.regv, hagc'.memv, hagc'.rc⟩
+        have hoj : (execInstr env w cfgc jz).outs = s1.outs := by simp [jz, execInstr, k5, ho, k8']
+        cases bv with
+        | true =>
+          simp only at hex k3 ⊢
+          have hpcj : (execInstr env w cfgc jz).pc = (pre ++ cc ++ [jz]).length := by
+            simp [jz, execInstr, k3, k2]; omega
+          obtain ⟨cfg2, y1, y2, y3, y4⟩ := iht live (base + cc.length + 1) (busy1.erase rc) ct busy2 ht hwt
+            (hvr.mono k10) hinj (pre ++ cc ++ [jz]) ([jn] ++ ce ++ post) _ s1 (by rw [hb]; simp; omega) hpcj hagj hoj hex
+          rw [← hP2] at y1
+          have hfetch2 : (pre ++ (cc ++ [jz] ++ ct ++ [jn] ++ ce) ++ post)[cfg2.pc]? = some jn := by
+            rw [y2]
+            have := getElem?_code pre (cc ++ [jz] ++ ct ++ [jn] ++ ce) post (cc.length + 1 + ct.length) jn (by
+              rw [show cc ++ [jz] ++ ct ++ [jn] ++ ce = (cc ++ [jz] ++ ct) ++ (jn :: ce) by simp]
+              rw [List.getElem?_append_right (by simp; omega)]
+              have : cc.length + 1 + ct.length - (cc ++ [jz] ++ ct).length = 0 := by simp; omega
+              rw [this]; rfl)
+            simpa [Nat.add_assoc] using this
+          have rn := Reaches.step (env := env) (w := w) hfetch2
+          refine ⟨execInstr env w cfg2 jn, k1.trans (rj.trans (y1.trans rn)), ?_, ?_, ?_⟩
+          · simp [jn, execInstr, hb]; omega
+          · have y3' := y3.mono (live := live) (fun x hx => List.mem_append_left _ hx)
+            exact ⟨y3'.regv, y3'.memv, y3'.rc⟩
+          · simpa [jn, execInstr] using y4
+        | false =>
+          simp only at hex k3 ⊢
+          have hpcj : (execInstr env w cfgc jz).pc = (pre ++ cc ++ [jz] ++ ct ++ [jn]).length := by
+            simp [jz, execInstr, k3, hb]; omega
+          have hm2 : ∀ x ∈ busy, x ∈ busy2 := fun x hx => compileS_mono ls t _ _ _ _ ht x (k10 x hx)
+          obtain ⟨cfg2, y1, y2, y3, y4⟩ := ihe live (base + cc.length + 1 + ct.length + 1) busy2 ce busy3 he hwe
+            (hvr.mono hm2) hinj (pre ++ cc ++ [jz] ++ ct ++ [jn]) post _ s1 (by rw [hb]; simp; omega) hpcj hagj hoj hex
+          rw [← hP3] at y1
+          refine ⟨cfg2, k1.trans (rj.trans y1), by rw [y2, hlen]; simp; omega,
+            y3.mono (fun x hx => List.mem_append_left _ hx), y4⟩
+
+
+
+/-- `for { … }` never finishes: the source semantics never reports completion for it -/
+theorem exec_loop_none (env : Nat → Nat → Nat) (w : Nat) (body : Stmt) :
+    ∀ fuel s, (exec env w fuel (.loop none body) s).2 = false := by
+  intro fuel
+  induction fuel with
+  | zero => intro s; simp [exec]
+  | succ f ih =>
+    intro s
+    simp only [exec]
+    generalize exec env w f body s = r
+    obtain ⟨s1, f1⟩ := r
+    cases f1 with
+    | true => exact ih s1
+    | false => rfl
+
+theorem stmtOK_loop_none (env : Nat → Nat → Nat) (w fuel : Nat) (ls : List Loc) (body : Stmt) :
+    StmtOK env w ls fuel (.loop none body) := by
+  intro live base busy c busy' h hwf hvr hinj pre post cfg s hb hpc hag ho hex
+  rw [exec_loop_none] at hex; cases hex
+
+theorem stmtOK_loop_zero (env : Nat → Nat → Nat) (w : Nat) (ls : List Loc) (oc : Option Cond) (body : Stmt) :
+    StmtOK env w ls 0 (.loop oc body) := by
+  intro live base busy c busy' h hwf hvr hinj pre post cfg s hb hpc hag ho hex
+  simp [exec] at hex
+
+/-- one more unit of fuel for a conditional loop: test, body, back edge, then the loop again -/
+theorem stmtOK_loop_succ (env : Nat → Nat → Nat) (w : Nat) (hw : 0 < w) (fuel : Nat) (ls : List Loc)
+    (hall : ∀ st, StmtOK env w ls fuel st) (cnd : Cond) (body : Stmt) :
+    StmtOK env w ls (fuel + 1) (.loop (some cnd) body) := by
+  intro live base busy c busy' h hwf hvr hinj pre post cfg s hb hpc hag ho hex
+  have h0 := h
+  have hwf0 := hwf
+  simp only [wfS, Bool.and_eq_true, List.all_eq_true, List.contains_iff_mem] at hwf
+  obtain ⟨hvc, hwb⟩ := hwf
+  simp only [compileS] at h
+  split at h
+  · cases h
+  · rename_i cc rc busy1 hc
+    split at h
+    · cases h
+    · rename_i cb busy2 hcb
+      simp only [Option.some.injEq, Prod.mk.injEq] at h
+      obtain ⟨e1, e2⟩ := h; subst e1; subst e2
+      let jz : Instr := .jz rc (base + cc.length + 1 + cb.length + 1)
+      let jb : Instr := .j base
+      have hP1 : pre ++ (cc ++ [jz] ++ cb ++ [jb]) ++ post = pre ++ cc ++ ([jz] ++ cb ++ [jb] ++ post) := by
+        simp [List.append_assoc]
+      have hP2 : pre ++ (cc ++ [jz] ++ cb ++ [jb]) ++ post = (pre ++ cc ++ [jz]) ++ cb ++ ([jb] ++ post) := by
+        simp [List.append_assoc]
+      have hlen : (cc ++ [jz] ++ cb ++ [jb]).length = cc.length + 1 + cb.length + 1 := by simp; omega
+      obtain ⟨cfgc, k1, k2, k3, k4, k5, k6, k7, k8, k9, k10⟩ :=
+        condL env w hw ls cnd live busy base cc rc busy1 hc pre ([jz] ++ cb ++ [jb] ++ post) cfg s hb hpc hag hvr hvc
+      rw [← hP1] at k1
+      have hagc : AgreeL ls live cfgc (evalC env w cnd s).2 := hag.after_expr hvr k9 k4 k6 k7
+      have hfetch : (pre ++ (cc ++ [jz] ++ cb ++ [jb]) ++ post)[cfgc.pc]? = some jz := by
+        rw [k2]; exact getElem?_code pre _ post cc.length jz (by simp)
+      have rj := Reaches.step (env := env) (w := w) hfetch
+      simp only [topDecls, List.append_nil]
+      simp only [exec] at hex ⊢
+      generalize hr : evalC env w cnd s = r at hex k3 k6 k7 k8 hagc ⊢
+      obtain ⟨bv, s1⟩ := r
+      have k8' : s1.outs = s.outs := k8
+      have hagc' : AgreeL ls live cfgc s1 := hagc
+      have hagj : AgreeL ls live (execInstr env w cfgc jz) s1 := ⟨hagc'.regv, hagc'.memv, hagc'.rc⟩
+      have hoj : (execInstr env w cfgc jz).outs = s1.outs := by simp [jz, execInstr, k5, ho, k8']
+      cases bv with
+      | false =>
+        simp only at hex k3 ⊢
+        refine ⟨execInstr env w cfgc jz, k1.trans rj, ?_, hagj, hoj⟩
+        simp [jz, execInstr, k3, hb]; omega
+      | true =>
+        simp only at hex k3 ⊢
+        generalize hrb : exec env w fuel body s1 = rb at hex ⊢
+        obtain ⟨s2, f2⟩ := rb
+        cases f2 with
+        | false => simp at hex
+        | true =>
+          simp only at hex ⊢
+          have hpcj : (execInstr env w cfgc jz).pc = (pre ++ cc ++ [jz]).length := by
+            simp [jz, execInstr, k3, k2]; omega
+          obtain ⟨cfg2, y1, y2, y3, y4⟩ := hall body live (base + cc.length + 1) (busy1.erase rc) cb busy2 hcb hwb
+            (hvr.mono k10) hinj (pre ++ cc ++ [jz]) ([jb] ++ post) _ s1 (by rw [hb]; simp; omega) hpcj hagj hoj
+            (by rw [hrb])
+          rw [hrb] at y3 y4
+          rw [← hP2] at y1
+          have hfetch2 : (pre ++ (cc ++ [jz] ++ cb ++ [jb]) ++ post)[cfg2.pc]? = some jb := by
+            rw [y2]
+            have := getElem?_code pre (cc ++ [jz] ++ cb ++ [jb]) post (cc.length + 1 + cb.length) jb (by
+              rw [List.getElem?_append_right (by simp; omega)]
+              have : cc.length + 1 + cb.length - (cc ++ [jz] ++ cb).length = 0 := by simp; omega
+              rw [this]; rfl)
+            simpa [Nat.add_assoc] using this
+          have rn := Reaches.step (env := env) (w := w) hfetch2
+          have y3' := y3.mono (live := live) (fun x hx => List.mem_append_left _ hx)
+          -- back at the loop head: the same statement with one unit of fuel less
+          obtain ⟨cfg3, z1, z2, z3, z4⟩ := hall (.loop (some cnd) body) live base busy _ _ h0 hwf0 hvr hinj
+            pre post (execInstr env w cfg2 jb) s2 hb (by simp [jb, execInstr, hb])
+            ⟨y3'.regv, y3'.memv, y3'.rc⟩ (by simpa [jb, execInstr] using y4) hex
+          simp only [topDecls, List.append_nil] at z3
+          exact ⟨cfg3, k1.trans (rj.trans (y1.trans (rn.trans z1))), z2, z3, z4⟩
+
+/-- all statements at a given fuel, provided loops at that fuel are fine -/
+theorem stmtOK_struct (env : Nat → Nat → Nat) (w : Nat) (hw : 0 < w) (fuel : Nat) (ls : List Loc)
+    (hloop : ∀ oc body, StmtOK env w ls fuel (.loop oc body)) : ∀ st, StmtOK env w ls fuel st := by
+  intro st
+  induction st with
+  | skip => exact stmtOK_skip env w fuel ls
+  | seq a b iha ihb => exact stmtOK_seq env w fuel ls a b iha ihb
+  | assign x e => exact stmtOK_assign env w fuel ls x e
+  | inc x => exact stmtOK_inc env w fuel ls x
+  | dec x => exact stmtOK_dec env w fuel ls x
+  | decl x => exact stmtOK_decl env w fuel ls x
+  | iowrite o e => exact stmtOK_iowrite env w fuel ls o e
+  | ifThen c t iht => exact stmtOK_ifThen env w hw fuel ls c t iht
+  | ifElse c t e iht ihe => exact stmtOK_ifElse env w hw fuel ls c t e iht ihe
+  | loop oc body _ => exact hloop oc body
+
+/-- the simulation theorem: every statement, every fuel -/
+theorem stmtOK_all (env : Nat → Nat → Nat) (w : Nat) (hw : 0 < w) (ls : List Loc) :
+    ∀ fuel st, StmtOK env w ls fuel st := by
+  intro fuel
+  induction fuel with
+  | zero => exact stmtOK_struct env w hw 0 ls (fun oc body => stmtOK_loop_zero env w ls oc body)
+  | succ f ih =>
+    refine stmtOK_struct env w hw (f + 1) ls (fun oc body => ?_)
+    cases oc with
+    | none => exact stmtOK_loop_none env w (f + 1) ls body
+    | some cnd => exact stmtOK_loop_succ env w hw f ls ih cnd body
+
+
+
+/-! ### whole structured programs -/
+
+/-- the scoping / placement check of a whole program: the body is checked against the locations
+    `allLocs` computes, starting with the top-level variables in scope -/
+def wfProg (p : Prog) : Bool := wfS (allLocs p) p.body (List.range p.decls.length)
+
+theorem locsFrom_length (ds : List Bool) : ∀ busy m, (locsFrom ds busy m).length = ds.length := by
+  induction ds with
+  | nil => intro busy m; rfl
+  | cons d ds ih => intro busy m; cases d <;> simp [locsFrom, ih]
+
+theorem blockLocs_mem (st : Stmt) : ∀ mems, ∀ l ∈ (blockLocs st mems).1, ∃ m, l = Loc.mem m := by
+  induction st with
+  | seq a b iha ihb =>
+    intro mems l hl
+    simp only [blockLocs, List.mem_append] at hl
+    rcases hl with hl | hl
+    · exact iha _ l hl
+    · exact ihb _ l hl
+  | decl x => intro mems l hl; simp only [blockLocs, List.mem_singleton] at hl; exact ⟨_, hl⟩
+  | skip => intro mems l hl; simp [blockLocs] at hl
+  | assign _ _ => intro mems l hl; simp [blockLocs] at hl
+  | inc _ => intro mems l hl; simp [blockLocs] at hl
+  | dec _ => intro mems l hl; simp [blockLocs] at hl
+  | iowrite _ _ => intro mems l hl; simp [blockLocs] at hl
+  | ifThen _ t iht => intro mems l hl; simp only [blockLocs] at hl; exact iht _ l hl
+  | ifElse _ t e iht ihe =>
+    intro mems l hl
+    simp only [blockLocs, List.mem_append] at hl
+    rcases hl with hl | hl
+    · exact iht _ l hl
+    · exact ihe _ l hl
+  | loop _ b ihb => intro mems l hl; simp only [blockLocs] at hl; exact ihb _ l hl
+
+theorem allLocs_top (p : Prog) (x : Nat) (hx : x < p.decls.length) : (allLocs p)[x]? = (locs p.decls)[x]? := by
+  unfold allLocs
+  exact List.getElem?_append_left (by rw [locs, locsFrom_length]; exact hx)
+
+theorem allLocs_varRegs (p : Prog) : VarRegsIn (allLocs p) (varRegs (locs p.decls)) := by
+  intro x g hl
+  by_cases hx : x < p.decls.length
+  · rw [allLocs_top p x hx] at hl
+    exact mem_varRegs hl
+  · unfold allLocs at hl
+    rw [List.getElem?_append_right (by rw [locs, locsFrom_length]; omega)] at hl
+    obtain ⟨m, hm⟩ := blockLocs_mem p.body _ _ (List.mem_of_getElem? hl)
+    cases hm
+
+theorem allLocs_liveInj (p : Prog) : LiveInj (allLocs p) (List.range p.decls.length) := by
+  intro x hx y hy l hlx hly
+  rw [allLocs_top p x (List.mem_range.mp hx)] at hlx
+  rw [allLocs_top p y (List.mem_range.mp hy)] at hly
+  exact locs_inj p.decls x y l hlx hly
+
+/-- Structured programs (`if`/`else`, conditional `for`, block-local declarations): whenever `main`
+    returns within the fuel, the compiled program — started from the reset state — reaches after
+    some number of instructions a state past its last instruction, having written exactly the
+    outputs of `goEval`. -/
+theorem compile_structured (env : Nat → Nat → Nat) (w : Nat) (hw : 0 < w) (fuel : Nat) (p : Prog)
+    (code : List Instr) (hc : compile p = some code) (hwf : wfProg p = true)
+    (hdone : (goEval env w fuel p).2 = true) :
+    ∃ n, runCode env w code n = ((goEval env w fuel p).1, true) := by
+  unfold compile at hc
+  simp only at hc
+  split at hc
+  · rename_i c busy' hcs
+    simp only [Option.some.injEq] at hc
+    subst hc
+    have hz0 : ZeroState ({} : Cfg) := ⟨rfl, rfl, rfl, rfl⟩
+    have hpre := preamble_run env w p.decls [] 0 [] c {} rfl hz0
+    simp only [List.nil_append, List.length_nil, Nat.zero_add] at hpre
+    obtain ⟨hp1, hp2⟩ := hpre
+    have hag : AgreeL (allLocs p) (List.range p.decls.length)
+        (isaRun env w (preamble p.decls ++ c) (preamble p.decls).length {}) {} := by
+      refine ⟨fun x _ g _ => ?_, fun x _ m _ => ?_, ?_⟩
+      · show (isaRun env w (preambleFrom p.decls [] 0 ++ c) (preambleFrom p.decls [] 0).length {}).regs g = 0
+        rw [hp2.regs]
+      · show (isaRun env w (preambleFrom p.decls [] 0 ++ c) (preambleFrom p.decls [] 0).length {}).mem m = 0
+        rw [hp2.mem]
+      · exact hp2.rc
+    have hst := stmtOK_all env w hw (allLocs p) fuel p.body (List.range p.decls.length)
+      (preamble p.decls).length (varRegs (locs p.decls)) c busy' hcs hwf (allLocs_varRegs p) (allLocs_liveInj p)
+      (preamble p.decls) [] _ {} rfl hp1 hag hp2.outs hdone
+    simp only [List.append_nil] at hst
+    obtain ⟨cfg', ⟨n, hn⟩, s2, _, s4⟩ := hst
+    refine ⟨(preamble p.decls).length + n, ?_⟩
+    have hn' : isaRun env w (preamble p.decls ++ c) n
+        (isaRun env w (preamble p.decls ++ c) (preamble p.decls).length {}) = cfg' := hn
+    simp only [runCode, goEval]
+    rw [isaRun_add, hn', s4, s2]
+    simp
+  · cases hc
+
+
+
+/-! ### runs that exhaust the loop fuel: the outputs produced so far are produced by the machine -/
+
+def StmtTO (env : Nat → Nat → Nat) (w : Nat) (ls : List Loc) (fuel : Nat) (st : Stmt) : Prop :=
+  ∀ (live : List Nat) (base : Nat) (busy : List Nat) (c : List Instr) (busy' : List Nat),
+    compileS ls st base busy = some (c, busy') → wfS ls st live = true → VarRegsIn ls busy → LiveInj ls live →
+    ∀ (pre post : List Instr) (cfg : Cfg) (s : Src), base = pre.length → cfg.pc = pre.length →
+      AgreeL ls live cfg s → cfg.outs = s.outs → (exec env w fuel st s).2 = false →
+      ∃ cfg', Reaches env w (pre ++ c ++ post) cfg cfg' ∧ cfg'.outs = (exec env w fuel st s).1.outs
+
+theorem stmtTO_seq (env : Nat → Nat → Nat) (w : Nat) (hw : 0 < w) (fuel : Nat) (ls : List Loc) (a b : Stmt)
+    (iha : StmtTO env w ls fuel a) (ihb : StmtTO env w ls fuel b) : StmtTO env w ls fuel (.seq a b) := by
+  intro live base busy c busy' h hwf hvr hinj pre post cfg s hb hpc hag ho hex
+  simp only [wfS, Bool.and_eq_true] at hwf
+  simp only [compileS] at h
+  split at h
+  · cases h
+  · rename_i c1 busy1 h1
+    split at h
+    · cases h
+    · rename_i c2 busy2 h2
+      simp only [Option.some.injEq, Prod.mk.injEq] at h
+      obtain ⟨e1, e2⟩ := h; subst e1; subst e2
+      have hP1 : pre ++ (c1 ++ c2) ++ post = pre ++ c1 ++ (c2 ++ post) := by simp [List.append_assoc]
+      have hP2 : pre ++ (c1 ++ c2) ++ post = (pre ++ c1) ++ c2 ++ post := by simp [List.append_assoc]
+      simp only [exec] at hex ⊢
+      generalize hr : exec env w fuel a s = r at hex ⊢
+      obtain ⟨s1, f1⟩ := r
+      cases f1 with
+      | false =>
+        simp only at hex ⊢
+        obtain ⟨cfg1, x1, x2⟩ := iha live base busy c1 busy1 h1 hwf.1 hvr hinj pre (c2 ++ post) cfg s hb hpc hag ho
+          (by rw [hr])
+        rw [hr] at x2
+        rw [← hP1] at x1
+        exact ⟨cfg1, x1, x2⟩
+      | true =>
+        simp only at hex ⊢
+        obtain ⟨cfg1, x1, x2, x3, x4⟩ := stmtOK_all env w hw ls fuel a live base busy c1 busy1 h1 hwf.1 hvr hinj
+          pre (c2 ++ post) cfg s hb hpc hag ho (by rw [hr])
+        rw [hr] at x3 x4
+        rw [← hP1] at x1
+        obtain ⟨cfg2, y1, y2⟩ := ihb (live ++ topDecls a) (base + c1.length) busy1 c2 busy2 h2 hwf.2
+          (hvr.mono (compileS_mono ls a _ _ _ _ h1)) (wfS_liveInj ls a live hwf.1 hinj)
+          (pre ++ c1) post cfg1 s1 (by rw [hb]; simp) (by rw [x2]; simp) x3 x4 hex
+        rw [← hP2] at y1
+        exact ⟨cfg2, x1.trans y1, y2⟩
+
+theorem stmtTO_ifThen (env : Nat → Nat → Nat) (w : Nat) (hw : 0 < w) (fuel : Nat) (ls : List Loc)
+    (cnd : Cond) (t : Stmt) (iht : StmtTO env w ls fuel t) : StmtTO env w ls fuel (.ifThen cnd t) := by
+  intro live base busy c busy' h hwf hvr hinj pre post cfg s hb hpc hag ho hex
+  simp only [wfS, Bool.and_eq_true, List.all_eq_true, List.contains_iff_mem] at hwf
+  obtain ⟨hvc, hwt⟩ := hwf
+  simp only [compileS] at h
+  split at h
+  · cases h
+  · rename_i cc rc busy1 hc
+    split at h
+    · cases h
+    · rename_i ct busy2 ht
+      simp only [Option.some.injEq, Prod.mk.injEq] at h
+      obtain ⟨e1, e2⟩ := h; subst e1; subst e2
+      let jz : Instr := .jz rc (base + cc.length + 1 + ct.length)
+      have hP1 : pre ++ (cc ++ [jz] ++ ct) ++ post = pre ++ cc ++ ([jz] ++ ct ++ post) := by simp [List.append_assoc]
+      have hP2 : pre ++ (cc ++ [jz] ++ ct) ++ post = (pre ++ cc ++ [jz]) ++ ct ++ post := by simp [List.append_assoc]
+      obtain ⟨cfgc, k1, k2, k3, k4, k5, k6, k7, k8, k9, k10⟩ :=
+        condL env w hw ls cnd live busy base cc rc busy1 hc pre ([jz] ++ ct ++ post) cfg s hb hpc hag hvr hvc
+      rw [← hP1] at k1
+      have hagc : AgreeL ls live cfgc (evalC env w cnd s).2 := hag.after_expr hvr k9 k4 k6 k7
+      have hfetch : (pre ++ (cc ++ [jz] ++ ct) ++ post)[cfgc.pc]? = some jz := by
+        rw [k2]; exact getElem?_code pre _ post cc.length jz (by simp)
+      have rj := Reaches.step (env := env) (w := w) hfetch
+      simp only [exec] at hex ⊢
+      generalize hr : evalC env w cnd s = r at hex k3 k6 k7 k8 hagc ⊢
+      obtain ⟨bv, s1⟩ := r
+      have k8' : s1.outs = s.outs := k8
+      have hagc' : AgreeL ls live cfgc s1 := hagc
+      cases bv with
+      | false => simp at hex
+      | true =>
+        simp only at hex k3 ⊢
+        have hpcj : (execInstr env w cfgc jz).pc = (pre ++ cc ++ [jz]).length := by
+          simp [jz, execInstr, k3, k2]; omega
+        have hagj : AgreeL ls live (execInstr env w cfgc jz) s1 := ⟨hagc'.regv, hagc'.memv, hagc'.rc⟩
+        obtain ⟨cfg2, y1, y2⟩ := iht live (base + cc.length + 1) (busy1.erase rc) ct busy2 ht hwt
+          (hvr.mono k10) hinj (pre ++ cc ++ [jz]) post _ s1 (by rw [hb]; simp; omega) hpcj hagj
+          (by simp [jz, execInstr, k5, ho, k8']) hex
+        rw [← hP2] at y1
+        exact ⟨cfg2, k1.trans (rj.trans y1), y2⟩
+
+theorem stmtTO_ifElse (env : Nat → Nat → Nat) (w : Nat) (hw : 0 < w) (fuel : Nat) (ls : List Loc)
+    (cnd : Cond) (t e : Stmt) (iht : StmtTO env w ls fuel t) (ihe : StmtTO env w ls fuel e) :
+    StmtTO env w ls fuel (.ifElse cnd t e) := by
+  intro live base busy c busy' h hwf hvr hinj pre post cfg s hb hpc hag ho hex
+  simp only [wfS, Bool.and_eq_true, List.all_eq_true, List.contains_iff_mem] at hwf
+  obtain ⟨⟨hvc, hwt⟩, hwe⟩ := hwf
+  simp only [compileS] at h
+  split at h
+  · cases h
+  · rename_i cc rc busy1 hc
+    split at h
+    · cases h
+    · rename_i ct busy2 ht
+      split at h
+      · cases h
+      · rename_i ce busy3 he
+        simp only [Option.some.injEq, Prod.mk.injEq] at h
+        obtain ⟨e1, e2⟩ := h; subst e1; subst e2
+        let jz : Instr := .jz rc (base + cc.length + 1 + ct.length + 1)
+        let jn : Instr := .j (base + cc.length + 1 + ct.length + 1 + ce.length)
+        have hP1 : pre ++ (cc ++ [jz] ++ ct ++ [jn] ++ ce) ++ post = pre ++ cc ++ ([jz] ++ ct ++ [jn] ++ ce ++ post) := by
+          simp [List.append_assoc]
+        have hP2 : pre ++ (cc ++ [jz] ++ ct ++ [jn] ++ ce) ++ post = (pre ++ cc ++ [jz]) ++ ct ++ ([jn] ++ ce ++ post) := by
+          simp [List.append_assoc]
+        have hP3 : pre ++ (cc ++ [jz] ++ ct ++ [jn] ++ ce) ++ post = (pre ++ cc ++ [jz] ++ ct ++ [jn]) ++ ce ++ post := by
+          simp [List.append_assoc]
+        obtain ⟨cfgc, k1, k2, k3, k4, k5, k6, k7, k8, k9, k10⟩ :=
+          condL env w hw ls cnd live busy base cc rc busy1 hc pre ([jz] ++ ct ++ [jn] ++ ce ++ post) cfg s hb hpc hag hvr hvc
+        rw [← hP1] at k1
+        have hagc : AgreeL ls live cfgc (evalC env w cnd s).2 := hag.after_expr hvr k9 k4 k6 k7
+        have hfetch : (pre ++ (cc ++ [jz] ++ ct ++ [jn] ++ ce) ++ post)[cfgc.pc]? = some jz := by
+          rw [k2]; exact getElem?_code pre _ post cc.length jz (by simp)
+        have rj := Reaches.step (env := env) (w := w) hfetch
+        simp only [exec] at hex ⊢
+        generalize hr : evalC env w cnd s = r at hex k3 k6 k7 k8 hagc ⊢
+        obtain ⟨bv, s1⟩ := r
+        have k8' : s1.outs = s.outs := k8
+        have hagc' : AgreeL ls live cfgc s1 := hagc
+        have hagj : AgreeL ls live (execInstr env w cfgc jz) s1 := ⟨hagc'.regv, hagc'.memv, hagc'.rc⟩
+        have hoj : (execInstr env w cfgc jz).outs = s1.outs := by simp [jz, execInstr, k5, ho, k8']
+        cases bv with
+        | true =>
+          simp only at hex k3 ⊢
+          have hpcj : (execInstr env w cfgc jz).pc = (pre ++ cc ++ [jz]).length := by
+            simp [jz, execInstr, k3, k2]; omega
+          obtain ⟨cfg2, y1, y2⟩ := iht live (base + cc.length + 1) (busy1.erase rc) ct busy2 ht hwt
+            (hvr.mono k10) hinj (pre ++ cc ++ [jz]) ([jn] ++ ce ++ post) _ s1 (by rw [hb]; simp; omega) hpcj hagj hoj hex
+          rw [← hP2] at y1
+          exact ⟨cfg2, k1.trans (rj.trans y1), y2⟩
+        | false =>
+          simp only at hex k3 ⊢
+          have hpcj : (execInstr env w cfgc jz).pc = (pre ++ cc ++ [jz] ++ ct ++ [jn]).length := by
+            simp [jz, execInstr, k3, hb]; omega
+          have hm2 : ∀ x ∈ busy, x ∈ busy2 := fun x hx => compileS_mono ls t _ _ _ _ ht x (k10 x hx)
+          obtain ⟨cfg2, y1, y2⟩ := ihe live (base + cc.length + 1 + ct.length + 1) busy2 ce busy3 he hwe
+            (hvr.mono hm2) hinj (pre ++ cc ++ [jz] ++ ct ++ [jn]) post _ s1 (by rw [hb]; simp; omega) hpcj hagj hoj hex
+          rw [← hP3] at y1
+          exact ⟨cfg2, k1.trans (rj.trans y1), y2⟩
+
+
+
+theorem stmtTO_loop_zero (env : Nat → Nat → Nat) (w : Nat) (ls : List Loc) (oc : Option Cond) (body : Stmt) :
+    StmtTO env w ls 0 (.loop oc body) := by
+  intro live base busy c busy' h hwf hvr hinj pre post cfg s hb hpc hag ho hex
+  refine ⟨cfg, Reaches.refl _ _ _ _, ?_⟩
+  simp [exec, ho]
+
+theorem stmtTO_loop_none_succ (env : Nat → Nat → Nat) (w : Nat) (hw : 0 < w) (fuel : Nat) (ls : List Loc)
+    (hall : ∀ st, StmtTO env w ls fuel st) (body : Stmt) :
+    StmtTO env w ls (fuel + 1) (.loop none body) := by
+  intro live base busy c busy' h hwf hvr hinj pre post cfg s hb hpc hag ho hex
+  have h0 := h
+  have hwf0 := hwf
+  simp only [wfS] at hwf
+  simp only [compileS] at h
+  split at h
+  · cases h
+  · rename_i cb busy1 hcb
+    simp only [Option.some.injEq, Prod.mk.injEq] at h
+    obtain ⟨e1, e2⟩ := h; subst e1; subst e2
+    let jb : Instr := .j base
+    have hP1 : pre ++ (cb ++ [jb]) ++ post = pre ++ cb ++ ([jb] ++ post) := by simp [List.append_assoc]
+    simp only [exec] at hex ⊢
+    generalize hrb : exec env w fuel body s = rb at hex ⊢
+    obtain ⟨s1, f1⟩ := rb
+    cases f1 with
+    | false =>
+      simp only at hex ⊢
+      obtain ⟨cfg1, x1, x2⟩ := hall body live base busy cb busy1 hcb hwf hvr hinj pre ([jb] ++ post) cfg s hb hpc hag ho
+        (by rw [hrb])
+      rw [hrb] at x2
+      rw [← hP1] at x1
+      exact ⟨cfg1, x1, x2⟩
+    | true =>
+      simp only at hex ⊢
+      obtain ⟨cfg1, x1, x2, x3, x4⟩ := stmtOK_all env w hw ls fuel body live base busy cb busy1 hcb hwf hvr hinj
+        pre ([jb] ++ post) cfg s hb hpc hag ho (by rw [hrb])
+      rw [hrb] at x3 x4
+      rw [← hP1] at x1
+      have hfetch : (pre ++ (cb ++ [jb]) ++ post)[cfg1.pc]? = some jb := by
+        rw [x2]; exact getElem?_code pre _ post cb.length jb (by simp)
+      have rn := Reaches.step (env := env) (w := w) hfetch
+      have x3' := x3.mono (live := live) (fun x hx => List.mem_append_left _ hx)
+      obtain ⟨cfg3, z1, z2⟩ := hall (.loop none body) live base busy _ _ h0 hwf0 hvr hinj
+        pre post (execInstr env w cfg1 jb) s1 hb (by simp [jb, execInstr, hb])
+        ⟨x3'.regv, x3'.memv, x3'.rc⟩ (by simpa [jb, execInstr] using x4) hex
+      exact ⟨cfg3, x1.trans (rn.trans z1), z2⟩
+
+theorem stmtTO_loop_some_succ (env : Nat → Nat → Nat) (w : Nat) (hw : 0 < w) (fuel : Nat) (ls : List Loc)
+    (hall : ∀ st, StmtTO env w ls fuel st) (cnd : Cond) (body : Stmt) :
+    StmtTO env w ls (fuel + 1) (.loop (some cnd) body) := by
+  intro live base busy c busy' h hwf hvr hinj pre post cfg s hb hpc hag ho hex
+  have h0 := h
+  have hwf0 := hwf
+  simp only [wfS, Bool.and_eq_true, List.all_eq_true, List.contains_iff_mem] at hwf
+  obtain ⟨hvc, hwb⟩ := hwf
+  simp only [compileS] at h
+  split at h
+  · cases h
+  · rename_i cc rc busy1 hc
+    split at h
+    · cases h
+    · rename_i cb busy2 hcb
+      simp only [Option.some.injEq, Prod.mk.injEq] at h
+      obtain ⟨e1, e2⟩ := h; subst e1; subst e2
+      let jz : Instr := .jz rc (base + cc.length + 1 + cb.length + 1)
+      let jb : Instr := .j base
+      have hP1 : pre ++ (cc ++ [jz] ++ cb ++ [jb]) ++ post = pre ++ cc ++ ([jz] ++ cb ++ [jb] ++ post) := by
+        simp [List.append_assoc]
+      have hP2 : pre ++ (cc ++ [jz] ++ cb ++ [jb]) ++ post = (pre ++ cc ++ [jz]) ++ cb ++ ([jb] ++ post) := by
+        simp [List.append_assoc]
+      obtain ⟨cfgc, k1, k2, k3, k4, k5, k6, k7, k8, k9, k10⟩ :=
+        condL env w hw ls cnd live busy base cc rc busy1 hc pre ([jz] ++ cb ++ [jb] ++ post) cfg s hb hpc hag hvr hvc
+      rw [← hP1] at k1
+      have hagc : AgreeL ls live cfgc (evalC env w cnd s).2 := hag.after_expr hvr k9 k4 k6 k7
+      have hfetch : (pre ++ (cc ++ [jz] ++ cb ++ [jb]) ++ post)[cfgc.pc]? = some jz := by
+        rw [k2]; exact getElem?_code pre _ post cc.length jz (by simp)
+      have rj := Reaches.step (env := env) (w := w) hfetch
+      simp only [exec] at hex ⊢
+      generalize hr : evalC env w cnd s = r at hex k3 k6 k7 k8 hagc ⊢
+      obtain ⟨bv, s1⟩ := r
+      have k8' : s1.outs = s.outs := k8
+      have hagc' : AgreeL ls live cfgc s1 := hagc
+      have hagj : AgreeL ls live (execInstr env w cfgc jz) s1 := ⟨hagc'.regv, hagc'.memv, hagc'.rc⟩
+      have hoj : (execInstr env w cfgc jz).outs = s1.outs := by simp [jz, execInstr, k5, ho, k8']
+      cases bv with
+      | false => simp at hex
+      | true =>
+        simp only at hex k3 ⊢
+        have hpcj : (execInstr env w cfgc jz).pc = (pre ++ cc ++ [jz]).length := by
+          simp [jz, execInstr, k3, k2]; omega
+        generalize hrb : exec env w fuel body s1 = rb at hex ⊢
+        obtain ⟨s2, f2⟩ := rb
+        cases f2 with
+        | false =>
+          simp only at hex ⊢
+          obtain ⟨cfg2, y1, y2⟩ := hall body live (base + cc.length + 1) (busy1.erase rc) cb busy2 hcb hwb
+            (hvr.mono k10) hinj (pre ++ cc ++ [jz]) ([jb] ++ post) _ s1 (by rw [hb]; simp; omega) hpcj hagj hoj
+            (by rw [hrb])
+          rw [hrb] at y2
+          rw [← hP2] at y1
+          exact ⟨cfg2, k1.trans (rj.trans y1), y2⟩
+        | true =>
+          simp only at hex ⊢
+          obtain ⟨cfg2, y1, y2, y3, y4⟩ := stmtOK_all env w hw ls fuel body live (base + cc.length + 1) (busy1.erase rc)
+            cb busy2 hcb hwb (hvr.mono k10) hinj (pre ++ cc ++ [jz]) ([jb] ++ post) _ s1 (by rw [hb]; simp; omega)
+            hpcj hagj hoj (by rw [hrb])
+          rw [hrb] at y3 y4
+          rw [← hP2] at y1
+          have hfetch2 : (pre ++ (cc ++ [jz] ++ cb ++ [jb]) ++ post)[cfg2.pc]? = some jb := by
+            rw [y2]
+            have := getElem?_code pre (cc ++ [jz] ++ cb ++ [jb]) post (cc.length + 1 + cb.length) jb (by
+              rw [List.getElem?_append_right (by simp; omega)]
+              have : cc.length + 1 + cb.length - (cc ++ [jz] ++ cb).length = 0 := by simp; omega
+              rw [this]; rfl)
+            simpa [Nat.add_assoc] using this
+          have rn := Reaches.step (env := env) (w := w) hfetch2
+          have y3' := y3.mono (live := live) (fun x hx => List.mem_append_left _ hx)
+          obtain ⟨cfg3, z1, z2⟩ := hall (.loop (some cnd) body) live base busy _ _ h0 hwf0 hvr hinj
+            pre post (execInstr env w cfg2 jb) s2 hb (by simp [jb, execInstr, hb])
+            ⟨y3'.regv, y3'.memv, y3'.rc⟩ (by simpa [jb, execInstr] using y4) hex
+          exact ⟨cfg3, k1.trans (rj.trans (y1.trans (rn.trans z1))), z2⟩
+
+theorem stmtTO_struct (env : Nat → Nat → Nat) (w : Nat) (hw : 0 < w) (fuel : Nat) (ls : List Loc)
+    (hloop : ∀ oc body, StmtTO env w ls fuel (.loop oc body)) : ∀ st, StmtTO env w ls fuel st := by
+  intro st
+  induction st with
+  | skip => intro _ _ _ _ _ _ _ _ _ _ _ _ _ _ _ _ _ hex; simp [exec] at hex
+  | assign x e => intro _ _ _ _ _ _ _ _ _ _ _ _ _ _ _ _ _ hex; simp [exec] at hex
+  | inc x => intro _ _ _ _ _ _ _ _ _ _ _ _ _ _ _ _ _ hex; simp [exec] at hex
+  | dec x => intro _ _ _ _ _ _ _ _ _ _ _ _ _ _ _ _ _ hex; simp [exec] at hex
+  | decl x => intro _ _ _ _ _ _ _ _ _ _ _ _ _ _ _ _ _ hex; simp [exec] at hex
+  | iowrite o e => intro _ _ _ _ _ _ _ _ _ _ _ _ _ _ _ _ _ hex; simp [exec] at hex
+  | seq a b iha ihb => exact stmtTO_seq env w hw fuel ls a b iha ihb
+  | ifThen c t iht => exact stmtTO_ifThen env w hw fuel ls c t iht
+  | ifElse c t e iht ihe => exact stmtTO_ifElse env w hw fuel ls c t e iht ihe
+  | loop oc body _ => exact hloop oc body
+
+theorem stmtTO_all (env : Nat → Nat → Nat) (w : Nat) (hw : 0 < w) (ls : List Loc) :
+    ∀ fuel st, StmtTO env w ls fuel st := by
+  intro fuel
+  induction fuel with
+  | zero => exact stmtTO_struct env w hw 0 ls (fun oc body => stmtTO_loop_zero env w ls oc body)
+  | succ f ih =>
+    refine stmtTO_struct env w hw (f + 1) ls (fun oc body => ?_)
+    cases oc with
+    | none => exact stmtTO_loop_none_succ env w hw f ls ih body
+    | some cnd => exact stmtTO_loop_some_succ env w hw f ls ih cnd body
+
+/-- Whole programs, every fuel: the compiled program reaches a state whose output list is exactly
+    what `goEval` produced within the fuel — whether `main` returned or the fuel ran out — and in
+    the first case the machine has left the program. -/
+theorem compile_prefix (env : Nat → Nat → Nat) (w : Nat) (hw : 0 < w) (fuel : Nat) (p : Prog)
+    (code : List Instr) (hc : compile p = some code) (hwf : wfProg p = true) :
+    ∃ n, (runCode env w code n).1 = (goEval env w fuel p).1 ∧
+         ((goEval env w fuel p).2 = true → (runCode env w code n).2 = true) := by
+  cases hd : (goEval env w fuel p).2 with
+  | true =>
+    obtain ⟨n, hn⟩ := compile_structured env w hw fuel p code hc hwf hd
+    exact ⟨n, by rw [hn], fun _ => by rw [hn]⟩
+  | false =>
+    unfold compile at hc
+    simp only at hc
+    split at hc
+    · rename_i c busy' hcs
+      simp only [Option.some.injEq] at hc
+      subst hc
+      have hz0 : ZeroState ({} : Cfg) := ⟨rfl, rfl, rfl, rfl⟩
+      have hpre := preamble_run env w p.decls [] 0 [] c {} rfl hz0
+      simp only [List.nil_append, List.length_nil, Nat.zero_add] at hpre
+      obtain ⟨hp1, hp2⟩ := hpre
+      have hag : AgreeL (allLocs p) (List.range p.decls.length)
+          (isaRun env w (preamble p.decls ++ c) (preamble p.decls).length {}) {} := by
+        refine ⟨fun x _ g _ => ?_, fun x _ m _ => ?_, ?_⟩
+        · show (isaRun env w (preambleFrom p.decls [] 0 ++ c) (preambleFrom p.decls [] 0).length {}).regs g = 0
+          rw [hp2.regs]
+        · show (isaRun env w (preambleFrom p.decls [] 0 ++ c) (preambleFrom p.decls [] 0).length {}).mem m = 0
+          rw [hp2.mem]
+        · exact hp2.rc
+      have hst := stmtTO_all env w hw (allLocs p) fuel p.body (List.range p.decls.length)
+        (preamble p.decls).length (varRegs (locs p.decls)) c busy' hcs hwf (allLocs_varRegs p) (allLocs_liveInj p)
+        (preamble p.decls) [] _ {} rfl hp1 hag hp2.outs hd
+      simp only [List.append_nil] at hst
+      obtain ⟨cfg', ⟨n, hn⟩, s4⟩ := hst
+      have hn' : isaRun env w (preamble p.decls ++ c) n
+          (isaRun env w (preamble p.decls ++ c) (preamble p.decls).length {}) = cfg' := hn
+      refine ⟨(preamble p.decls).length + n, ?_, fun h => by cases h⟩
+      simp only [runCode, goEval]
+      rw [isaRun_add, hn', s4]
+    · cases hc
+
+
+
+/-- The tail of a compiled comparison on a machine whose `je` does nothing (procbuilder's `je` today;
+    modelled, as the oracle does, by a jump to the next instruction): whatever the operand
+    registers hold, the result register ends up 0 — every compiled `==` is false there. -/
+theorem cond_tail_je_noop (env : Nat → Nat → Nat) (w : Nat) (pre post : List Instr) (rc l : Nat) (cfg : Cfg)
+    (hpc : cfg.pc = pre.length) (hl : l = pre.length) :
+    ∃ cfg', Reaches env w (pre ++ [Instr.j (l + 1), Instr.rset rc 0, Instr.j (l + 4), Instr.rset rc 1] ++ post) cfg cfg' ∧
+      cfg'.pc = l + 4 ∧ cfg'.regs rc = 0 ∧ cfg'.mem = cfg.mem ∧ cfg'.outs = cfg.outs ∧
+      (∀ x, x ≠ rc → cfg'.regs x = cfg.regs x) := by
+  let c1 := execInstr env w cfg (Instr.j (l + 1))
+  let c2 := execInstr env w c1 (Instr.rset rc 0)
+  let c3 := execInstr env w c2 (Instr.j (l + 4))
+  have r1 : Reaches env w (pre ++ [Instr.j (l + 1), Instr.rset rc 0, Instr.j (l + 4), Instr.rset rc 1] ++ post) cfg c1 :=
+    Reaches.step (by rw [hpc]; exact getElem?_code pre _ post 0 _ rfl)
+  have c1pc : c1.pc = pre.length + 1 := by simp [c1, execInstr, hl]
+  have r2 : Reaches env w (pre ++ [Instr.j (l + 1), Instr.rset rc 0, Instr.j (l + 4), Instr.rset rc 1] ++ post) c1 c2 :=
+    Reaches.step (by rw [c1pc]; exact getElem?_code pre _ post 1 _ rfl)
+  have c2pc : c2.pc = pre.length + 2 := by simp [c2, execInstr, c1pc]
+  have r3 : Reaches env w (pre ++ [Instr.j (l + 1), Instr.rset rc 0, Instr.j (l + 4), Instr.rset rc 1] ++ post) c2 c3 :=
+    Reaches.step (by rw [c2pc]; exact getElem?_code pre _ post 2 _ rfl)
+  refine ⟨c3, r1.trans (r2.trans r3), by simp [c3, execInstr], by simp [c3, c2, execInstr, upd_same],
+    by simp [c3, c2, c1, execInstr], by simp [c3, c2, c1, execInstr], fun x hx => ?_⟩
+  simp [c3, c2, c1, execInstr, upd_other _ _ _ _ hx]
+
+/-! ### the scoping condition of the full statement (no reference to locations) -/
+
+/-- all declarations of a statement in textual order, nested blocks included -/
+def declOrder : Stmt → List Nat
+  | .seq a b => declOrder a ++ declOrder b
+  | .decl x => [x]
+  | .ifThen _ t => declOrder t
+  | .ifElse _ t e => declOrder t ++ declOrder e
+  | .loop _ b => declOrder b
+  | _ => []
+
+/-- Go's scoping rule on unique indices: whatever is read or written is in scope, a declaration
+    introduces a new variable -/
+def scopedS : Stmt → List Nat → Bool
+  | .skip, _ => true
+  | .seq a b, live => scopedS a live && scopedS b (live ++ topDecls a)
+  | .decl x, live => !live.contains x
+  | .assign x e, live => live.contains x && (exprVars e).all live.contains
+  | .inc x, live => live.contains x
+  | .dec x, live => live.contains x
+  | .iowrite _ e, live => (exprVars e).all live.contains
+  | .ifThen c t, live => (condVars c).all live.contains && scopedS t live
+  | .ifElse c t e, live => (condVars c).all live.contains && scopedS t live && scopedS e live
+  | .loop none b, live => scopedS b live
+  | .loop (some c) b, live => (condVars c).all live.contains && scopedS b live
+
+/-- a program after name resolution: well scoped, block-local variables numbered in textual order
+    after the top-level ones -/
+def scopedProg (p : Prog) : Bool :=
+  scopedS p.body (List.range p.decls.length) &&
+  (declOrder p.body == List.range' p.decls.length (declOrder p.body).length)
+
+
+
+/-! ### soundness of the cell release discipline (`blockLocs`) -/
+
+theorem mem_foldl_erase {m : Nat} : ∀ (tt l : List Nat), m ∈ l → m ∉ tt → m ∈ tt.foldl List.erase l := by
+  intro tt
+  induction tt with
+  | nil => intro l h _; exact h
+  | cons t tt ih =>
+    intro l h hn
+    simp only [List.foldl_cons]
+    have h1 : m ≠ t := fun e => hn (e ▸ List.mem_cons_self)
+    exact ih _ ((List.mem_erase_of_ne h1).mpr h) (fun h' => hn (List.mem_cons_of_mem _ h'))
+
+/-- (N) one location per declaration -/
+theorem blockLocs_length (st : Stmt) : ∀ mems, (blockLocs st mems).1.length = (declOrder st).length := by
+  induction st with
+  | seq a b iha ihb => intro mems; simp [blockLocs, declOrder, iha, ihb]
+  | decl x => intro mems; simp [blockLocs, declOrder]
+  | skip => intro mems; simp [blockLocs, declOrder]
+  | assign _ _ => intro mems; simp [blockLocs, declOrder]
+  | inc _ => intro mems; simp [blockLocs, declOrder]
+  | dec _ => intro mems; simp [blockLocs, declOrder]
+  | iowrite _ _ => intro mems; simp [blockLocs, declOrder]
+  | ifThen _ t iht => intro mems; simp [blockLocs, declOrder, iht]
+  | ifElse _ t e iht ihe => intro mems; simp [blockLocs, declOrder, iht, ihe]
+  | loop _ b ihb => intro mems; simp [blockLocs, declOrder, ihb]
+
+/-- (M) cells that are busy stay busy, and (T) the cells of the declarations made directly in the
+    sequence were free before -/
+theorem blockLocs_mono (st : Stmt) :
+    ∀ mems, (∀ m ∈ mems, m ∈ (blockLocs st mems).2.1) ∧ (∀ c ∈ (blockLocs st mems).2.2, c ∉ mems) := by
+  induction st with
+  | seq a b iha ihb =>
+    intro mems
+    obtain ⟨a1, a2⟩ := iha mems
+    obtain ⟨b1, b2⟩ := ihb (blockLocs a mems).2.1
+    simp only [blockLocs]
+    refine ⟨fun m hm => b1 m (a1 m hm), fun c hc => ?_⟩
+    rcases List.mem_append.mp hc with hc | hc
+    · exact a2 c hc
+    · exact fun hm => b2 c hc (a1 c hm)
+  | decl x =>
+    intro mems
+    simp only [blockLocs]
+    exact ⟨fun m hm => List.mem_cons_of_mem _ hm, fun c hc => by
+      simp only [List.mem_singleton] at hc; subst hc; exact fresh_not_mem _⟩
+  | skip => intro mems; simp [blockLocs]
+  | assign _ _ => intro mems; simp [blockLocs]
+  | inc _ => intro mems; simp [blockLocs]
+  | dec _ => intro mems; simp [blockLocs]
+  | iowrite _ _ => intro mems; simp [blockLocs]
+  | ifThen _ t iht =>
+    intro mems
+    simp only [blockLocs]
+    exact ⟨(iht mems).1, fun c hc => by cases hc⟩
+  | ifElse _ t e iht ihe =>
+    intro mems
+    obtain ⟨t1, t2⟩ := iht mems
+    simp only [blockLocs]
+    refine ⟨fun m hm => ?_, fun c hc => by cases hc⟩
+    refine (ihe _).1 m (mem_foldl_erase _ _ (t1 m hm) (fun hc => t2 m hc hm))
+  | loop _ b ihb =>
+    intro mems
+    simp only [blockLocs]
+    exact ⟨(ihb mems).1, fun c hc => by cases hc⟩
+
+
+theorem range'_split {A B : List Nat} {off : Nat} (h : A ++ B = List.range' off (A ++ B).length) :
+    A = List.range' off A.length ∧ B = List.range' (off + A.length) B.length := by
+  rw [List.length_append, ← List.range'_append_1] at h
+  exact List.append_inj h (by simp)
+
+/-- the placement lemma: a well-scoped statement whose declarations are numbered in textual order
+    from `off`, and whose locations sit at offset `off` of `ls`, passes the placement check — provided
+    the cells of the variables in scope are busy — and keeps that invariant -/
+theorem blockLocs_wf (ls : List Loc) (st : Stmt) :
+    ∀ (off : Nat) (mems live : List Nat),
+      scopedS st live = true →
+      declOrder st = List.range' off (declOrder st).length →
+      (∀ k, k < (blockLocs st mems).1.length → ls[off + k]? = (blockLocs st mems).1[k]?) →
+      (∀ y ∈ live, ∀ m, ls[y]? = some (Loc.mem m) → m ∈ mems) →
+      wfS ls st live = true ∧
+      (∀ y ∈ live ++ topDecls st, ∀ m, ls[y]? = some (Loc.mem m) → m ∈ (blockLocs st mems).2.1) := by
+  induction st with
+  | skip =>
+    intro off mems live _ _ _ h4
+    exact ⟨rfl, by simpa [topDecls, blockLocs] using h4⟩
+  | assign x e =>
+    intro off mems live h1 _ _ h4
+    exact ⟨by simpa [wfS, scopedS] using h1, by simpa [topDecls, blockLocs] using h4⟩
+  | inc x =>
+    intro off mems live h1 _ _ h4
+    exact ⟨by simpa [wfS, scopedS] using h1, by simpa [topDecls, blockLocs] using h4⟩
+  | dec x =>
+    intro off mems live h1 _ _ h4
+    exact ⟨by simpa [wfS, scopedS] using h1, by simpa [topDecls, blockLocs] using h4⟩
+  | iowrite o e =>
+    intro off mems live h1 _ _ h4
+    exact ⟨by simpa [wfS, scopedS] using h1, by simpa [topDecls, blockLocs] using h4⟩
+  | decl x =>
+    intro off mems live h1 h2 h3 h4
+    simp only [declOrder, List.length_singleton, List.range'_one, List.cons.injEq, and_true] at h2
+    subst h2
+    have hx : ls[x]? = some (Loc.mem (fresh mems)) := by
+      have := h3 0 (by simp [blockLocs])
+      simpa [blockLocs] using this
+    simp only [scopedS] at h1
+    refine ⟨?_, ?_⟩
+    · simp only [wfS, hx, Bool.and_eq_true, List.all_eq_true, bne_iff_ne, ne_eq]
+      exact ⟨h1, fun y hy hyl => fresh_not_mem mems (h4 y hy _ hyl)⟩
+    · intro y hy m hyl
+      simp only [topDecls] at hy
+      simp only [blockLocs]
+      rcases List.mem_append.mp hy with hy | hy
+      · exact List.mem_cons_of_mem _ (h4 y hy m hyl)
+      · simp only [List.mem_singleton] at hy; subst hy
+        rw [hx] at hyl; cases hyl
+        exact List.mem_cons_self
+  | seq a b iha ihb =>
+    intro off mems live h1 h2 h3 h4
+    simp only [scopedS, Bool.and_eq_true] at h1
+    simp only [declOrder] at h2
+    obtain ⟨ra, rb⟩ := range'_split h2
+    have hla := blockLocs_length a mems
+    have hlb := blockLocs_length b (blockLocs a mems).2.1
+    have h3a : ∀ k, k < (blockLocs a mems).1.length → ls[off + k]? = (blockLocs a mems).1[k]? := by
+      intro k hk
+      have := h3 k (by simp only [blockLocs, List.length_append]; omega)
+      simpa [blockLocs, List.getElem?_append_left hk] using this
+    obtain ⟨wa, ca⟩ := iha off mems live h1.1 ra h3a h4
+    have h3b : ∀ k, k < (blockLocs b (blockLocs a mems).2.1).1.length →
+        ls[off + (declOrder a).length + k]? = (blockLocs b (blockLocs a mems).2.1).1[k]? := by
+      intro k hk
+      have := h3 ((blockLocs a mems).1.length + k) (by simp only [blockLocs, List.length_append]; exact Nat.add_lt_add_left hk _)
+      rw [← hla, Nat.add_assoc, this]
+      simp only [blockLocs]
+      rw [List.getElem?_append_right (by omega)]
+      simp
+    obtain ⟨wb, cb⟩ := ihb (off + (declOrder a).length) (blockLocs a mems).2.1 (live ++ topDecls a) h1.2 rb h3b ca
+    refine ⟨by simp [wfS, wa, wb], ?_⟩
+    simpa [topDecls, blockLocs, List.append_assoc] using cb
+  | ifThen c t iht =>
+    intro off mems live h1 h2 h3 h4
+    simp only [scopedS, Bool.and_eq_true] at h1
+    simp only [declOrder] at h2
+    obtain ⟨wt, ct⟩ := iht off mems live h1.2 h2 (by simpa [blockLocs] using h3) h4
+    refine ⟨by simp [wfS, h1.1, wt], fun y hy m hyl => ?_⟩
+    simp only [topDecls, List.append_nil] at hy
+    simpa [blockLocs] using ct y (List.mem_append_left _ hy) m hyl
+  | loop oc b ihb =>
+    intro off mems live h1 h2 h3 h4
+    simp only [declOrder] at h2
+    cases oc with
+    | none =>
+      simp only [scopedS] at h1
+      obtain ⟨wb, cb⟩ := ihb off mems live h1 h2 (by simpa [blockLocs] using h3) h4
+      refine ⟨by simp [wfS, wb], fun y hy m hyl => ?_⟩
+      simp only [topDecls, List.append_nil] at hy
+      simpa [blockLocs] using cb y (List.mem_append_left _ hy) m hyl
+    | some c =>
+      simp only [scopedS, Bool.and_eq_true] at h1
+      obtain ⟨wb, cb⟩ := ihb off mems live h1.2 h2 (by simpa [blockLocs] using h3) h4
+      refine ⟨by simp [wfS, h1.1, wb], fun y hy m hyl => ?_⟩
+      simp only [topDecls, List.append_nil] at hy
+      simpa [blockLocs] using cb y (List.mem_append_left _ hy) m hyl
+  | ifElse c t e iht ihe =>
+    intro off mems live h1 h2 h3 h4
+    simp only [scopedS, Bool.and_eq_true] at h1
+    simp only [declOrder] at h2
+    obtain ⟨rt, re⟩ := range'_split h2
+    have hlt := blockLocs_length t mems
+    let memsE := (blockLocs t mems).2.2.foldl List.erase (blockLocs t mems).2.1
+    have h3t : ∀ k, k < (blockLocs t mems).1.length → ls[off + k]? = (blockLocs t mems).1[k]? := by
+      intro k hk
+      have := h3 k (by simp only [blockLocs, List.length_append]; omega)
+      simpa [blockLocs, List.getElem?_append_left hk] using this
+    obtain ⟨wt, ct⟩ := iht off mems live h1.1.2 rt h3t h4
+    have h3e : ∀ k, k < (blockLocs e memsE).1.length →
+        ls[off + (declOrder t).length + k]? = (blockLocs e memsE).1[k]? := by
+      intro k hk
+      have := h3 ((blockLocs t mems).1.length + k) (by simp only [blockLocs, List.length_append]; exact Nat.add_lt_add_left hk _)
+      rw [← hlt, Nat.add_assoc, this]
+      simp only [blockLocs]
+      rw [List.getElem?_append_right (by omega)]
+      simp [memsE]
+    obtain ⟨t1, t2⟩ := blockLocs_mono t mems
+    have h4e : ∀ y ∈ live, ∀ m, ls[y]? = some (Loc.mem m) → m ∈ memsE := by
+      intro y hy m hyl
+      have hm := h4 y hy m hyl
+      exact mem_foldl_erase _ _ (t1 m hm) (fun hc => t2 m hc hm)
+    obtain ⟨we, ce⟩ := ihe (off + (declOrder t).length) memsE live h1.2 re h3e h4e
+    refine ⟨by simp [wfS, h1.1.1, wt, we], fun y hy m hyl => ?_⟩
+    simp only [topDecls, List.append_nil] at hy
+    simpa [blockLocs, memsE] using ce y (List.mem_append_left _ hy) m hyl
+
+theorem mem_memCells {ls : List Loc} {x m : Nat} (h : ls[x]? = some (Loc.mem m)) : m ∈ memCells ls := by
+  unfold memCells
+  exact List.mem_filterMap.mpr ⟨.mem m, List.mem_of_getElem? h, rfl⟩
+
+/-- Soundness of the cell release discipline: every well-scoped program passes the placement check. -/
+theorem placement_sound (p : Prog) (h : scopedProg p = true) : wfProg p = true := by
+  simp only [scopedProg, Bool.and_eq_true, beq_iff_eq] at h
+  obtain ⟨hs, hd⟩ := h
+  have hlen : (locs p.decls).length = p.decls.length := by rw [locs, locsFrom_length]
+  refine (blockLocs_wf (allLocs p) p.body p.decls.length (memCells (locs p.decls)) (List.range p.decls.length)
+    hs hd ?_ ?_).1
+  · intro k hk
+    unfold allLocs
+    rw [List.getElem?_append_right (by omega)]
+    simp [hlen]
+  · intro y hy m hyl
+    rw [allLocs_top p y (List.mem_range.mp hy)] at hyl
+    exact mem_memCells hyl
+
+
 end BMV.Bondgo
